@@ -3,7 +3,7 @@ import TTV.Spec.C18
 /-! # C18 — routing picks exactly one destination; route prefixes push and pop inversely
 
 All statements are for **every** history of operations (any number and order of rules, re-registrations,
-start/stop calls) and every event. -/
+start/stop calls, sinks that add rules re-entrantly or raise from inside their methods) and every event. -/
 namespace TTV.Props.C18
 open TTV.Stream TTV.Stream.Router TTV.Spec.C18
 
@@ -78,7 +78,8 @@ theorem takeWhile_all (code : Str) (h : '/' ∉ code) : code.takeWhile (· != '/
 
 /-! ## the push/pop inverse -/
 /-- a router whose only rule is a consuming route rule for `code` -/
-def single (code : Str) : State := { fallback := none, prefixes := [(code, (0, true))], ids := [], sinks := [], inRun := false }
+def single (code : Str) : State :=
+  { fallback := none, prefixes := [(code, (0, true))], ids := [], sinks := [], inRun := false, scripts := [] }
 
 /-- **C18 (inverse)**: for every `/`-free code and every route code `rc` — `None` or any non-empty string, with any
 number of segments — the event that `StreamToQueue(code)` emits (`route_code` prefixed) is handed by a router with a
@@ -206,194 +207,1227 @@ theorem route_eq (hb ff : Bool) (hist : List Op) (s : State) (hI : Inv hb ff his
       simp only [Option.map_none, hI.ids]
       cases idRule (regs hist) e.testId <;> cases hb <;> simp
 
-theorem inv_step (hb ff : Bool) (hist : List Op) (s : State) (hI : Inv hb ff hist s) (o : Op) :
-    Inv hb ff (hist ++ [o]) (step s o).1 := by
+
+theorem inv_init' (hb ff : Bool) (scs : List Script) : Inv hb ff [] { init hb ff with scripts := scs } := by
+  refine ⟨rfl, fun _ => rfl, fun _ => rfl, ?_, rfl⟩
+  cases hb <;> cases ff <;> rfl
+
+/-! ## `add_rule` -/
+theorem effAdd_regs (H : List Op) (o : Op) : regs (H ++ effAdd o) = regs H ++ (regOf o).toList := by
+  unfold effAdd
+  cases h : regOf o with
+  | none => simp
+  | some r => simp [regs_snoc, h]
+
+theorem inRun_effAdd (H : List Op) (o : Op) : inRun (H ++ effAdd o) = inRun H := by
+  unfold effAdd
+  cases o <;> simp [regOf, inRun_snoc]
+  split <;> simp [inRun_snoc]
+
+/-- what `add_rule` does before it starts the new sink -/
+structure RegOut (hb ff : Bool) (H : List Op) (s : State) (o : Op) : Prop where
+  inv : Inv hb ff (H ++ effAdd o) (regStep s o).1
+  started : (regStep s o).2.1 = if s.inRun then flaggedSink o else none
+  inRun : (regStep s o).1.inRun = s.inRun
+  scripts : (regStep s o).1.scripts = s.scripts
+  grow : s.sinks.length ≤ (regStep s o).1.sinks.length ∧ (regStep s o).1.sinks.length ≤ s.sinks.length + 1
+  res : (regStep s o).2.2 = .ok ∨ ∃ x, (regStep s o).2.2 = .raised x ∧ regOf o = none ∧ (regStep s o).1 = s
+  resOk : (regOf o).isSome → (regStep s o).2.2 = .ok
+
+theorem inv_same (hb ff : Bool) (H : List Op) (s : State) (hI : Inv hb ff H s) (o : Op) (h : regOf o = none) :
+    Inv hb ff (H ++ effAdd o) s := by
+  have : effAdd o = [] := by simp [effAdd, h]
+  simpa [this] using hI
+
+theorem regStep_spec (hb ff : Bool) (H : List Op) (s : State) (hI : Inv hb ff H s) (o : Op) : RegOut hb ff H s o := by
+  cases o with
+  | start => exact ⟨inv_same hb ff H s hI _ rfl, by simp [regStep, flaggedSink, regOf], rfl, rfl, ⟨Nat.le_refl _, Nat.le_succ _⟩, Or.inl rfl, by simp [regOf]⟩
+  | stop => exact ⟨inv_same hb ff H s hI _ rfl, by simp [regStep, flaggedSink, regOf], rfl, rfl, ⟨Nat.le_refl _, Nat.le_succ _⟩, Or.inl rfl, by simp [regOf]⟩
+  | status e => exact ⟨inv_same hb ff H s hI _ rfl, by simp [regStep, flaggedSink, regOf], rfl, rfl, ⟨Nat.le_refl _, Nat.le_succ _⟩, Or.inl rfl, by simp [regOf]⟩
+  | roundTrip cs e => exact ⟨inv_same hb ff H s hI _ rfl, by simp [regStep, flaggedSink, regOf], rfl, rfl, ⟨Nat.le_refl _, Nat.le_succ _⟩, Or.inl rfl, by simp [regOf]⟩
+  | addBad sink flag =>
+    exact ⟨inv_same hb ff H s hI _ rfl, by simp [regStep, flaggedSink, regOf], rfl, rfl, ⟨Nat.le_refl _, Nat.le_succ _⟩,
+      Or.inr ⟨_, rfl, rfl, rfl⟩, by simp [regOf]⟩
+  | addPrefix sink p consume flag =>
+    by_cases hp : '/' ∈ p
+    · have hreg : regOf (.addPrefix sink p consume flag) = none := by simp [regOf, hp]
+      have hst : regStep s (.addPrefix sink p consume flag) = (s, none, .raised "TypeError") := by simp [regStep, hp]
+      rw [show (RegOut hb ff H s (.addPrefix sink p consume flag)) = _ from rfl]
+      refine ⟨by rw [hst]; exact inv_same hb ff H s hI _ hreg, by simp [hst, flaggedSink, hreg], by rw [hst], by rw [hst],
+        by rw [hst]; exact ⟨Nat.le_refl _, Nat.le_succ _⟩, Or.inr ⟨_, by rw [hst], hreg, by rw [hst]⟩, by simp [hreg]⟩
+    · have hreg : regOf (.addPrefix sink p consume flag) = some (.pfx sink p consume flag) := by simp [regOf, hp]
+      have hH : regs (H ++ effAdd (.addPrefix sink p consume flag)) = regs H ++ [.pfx sink p consume flag] := by
+        simp [effAdd_regs, hreg]
+      have hrun := inRun_effAdd H (.addPrefix sink p consume flag)
+      cases flag
+      · refine ⟨⟨?_, fun seg => ?_, fun t => ?_, ?_, ?_⟩, ?_, ?_, ?_, ?_, Or.inl ?_, fun _ => ?_⟩ <;>
+          simp [regStep, hp, hH, hrun, prefixRule_snoc, idRule_snoc, flagged_snoc, dictGet_set, hI.prefixes, hI.ids,
+            hI.sinks, hI.inRun, hI.fallback, flaggedSink, hreg]
+      · refine ⟨⟨?_, fun seg => ?_, fun t => ?_, ?_, ?_⟩, ?_, ?_, ?_, ?_, Or.inl ?_, fun _ => ?_⟩ <;>
+          simp [regStep, hp, hH, hrun, prefixRule_snoc, idRule_snoc, flagged_snoc, dictGet_set, hI.prefixes, hI.ids,
+            hI.sinks, hI.inRun, hI.fallback, flaggedSink, hreg]
+  | addId sink t flag =>
+    have hreg : regOf (.addId sink t flag) = some (.tid sink t flag) := by simp [regOf]
+    have hH : regs (H ++ effAdd (.addId sink t flag)) = regs H ++ [.tid sink t flag] := by simp [effAdd_regs, hreg]
+    have hrun := inRun_effAdd H (.addId sink t flag)
+    cases flag
+    · refine ⟨⟨hI.fallback, fun seg => ?_, fun t' => ?_, ?_, ?_⟩, ?_, ?_, ?_, ?_, Or.inl ?_, fun _ => ?_⟩ <;>
+        simp [regStep, hH, hrun, prefixRule_snoc, idRule_snoc, flagged_snoc, dictGet_set, hI.prefixes, hI.ids,
+          hI.sinks, hI.inRun, flaggedSink, hreg]
+    · refine ⟨⟨hI.fallback, fun seg => ?_, fun t' => ?_, ?_, ?_⟩, ?_, ?_, ?_, ?_, Or.inl ?_, fun _ => ?_⟩ <;>
+        simp [regStep, hH, hrun, prefixRule_snoc, idRule_snoc, flagged_snoc, dictGet_set, hI.prefixes, hI.ids,
+          hI.sinks, hI.inRun, flaggedSink, hreg]
+
+/-! ## a sink's method: the script entry against the reading of the history -/
+theorem inv_scripts (hb ff : Bool) (H : List Op) (s : State) (hI : Inv hb ff H s) (scs : List Script) :
+    Inv hb ff H { s with scripts := scs } := ⟨hI.fallback, hI.prefixes, hI.ids, hI.sinks, hI.inRun⟩
+
+theorem flaggedSink_none (o : Op) (h : regOf o = none) : flaggedSink o = none := by simp [flaggedSink, h]
+theorem effAdd_none (o : Op) (h : regOf o = none) : effAdd o = [] := by simp [effAdd, h]
+
+/-- the outcome of a piece of the execution, as the walker sees it: either it goes on with the history `H'`, or
+the operation ends with exception `x` -/
+def Walked (hb ff running : Bool) (m : Mode) (i : Nat) (H : List Op) (st : Bool) (items : List Item)
+    (err : Option String) (i' : Nat) (H' : List Op) : Prop :=
+  match err with
+  | none => ∀ rest, walk hb ff running m i H none st (items ++ rest) = walk hb ff running m i' H' none true rest
+  | some x => walk hb ff running m i H none st items = some (some x, H')
+
+theorem runActs_walk (hb ff : Bool) (m : Mode) (i : Nat) : ∀ (acts : List Act) (H : List Op) (s : State),
+    Inv hb ff H s →
+    ∃ H', Inv hb ff H' (runActs s acts).1
+      ∧ (runActs s acts).1.inRun = s.inRun ∧ (runActs s acts).1.scripts = s.scripts
+      ∧ s.sinks.length ≤ (runActs s acts).1.sinks.length
+      ∧ (runActs s acts).1.sinks.length ≤ s.sinks.length + acts.length
+      ∧ Walked hb ff s.inRun m i H true (runActs s acts).2.1 (runActs s acts).2.2 i H'
+  | [], H, s, hI => ⟨H, hI, rfl, rfl, Nat.le_refl _, Nat.le_refl _, by simp [Walked, runActs]⟩
+  | .raise :: as, H, s, hI =>
+    ⟨H, hI, rfl, rfl, Nat.le_refl _, by simp [runActs], by simp [Walked, runActs, walk]⟩
+  | .add o :: as, H, s, hI => by
+    have R := regStep_spec hb ff H s hI o
+    rcases R.res with hok | ⟨x, hx, hreg, hst⟩
+    · obtain ⟨H', h1, h2, h3, h4, h5, h6⟩ := runActs_walk hb ff m i as (H ++ effAdd o) (regStep s o).1 R.inv
+      refine ⟨H', ?_, ?_, ?_, ?_, ?_, ?_⟩
+      · simpa [runActs, hok] using h1
+      · simpa [runActs, hok, R.inRun] using h2
+      · simpa [runActs, hok, R.scripts] using h3
+      · simp only [runActs, hok]; exact Nat.le_trans R.grow.1 h4
+      · simp only [runActs, hok, List.length_cons]; have := R.grow.2; omega
+      · simp only [runActs, hok]
+        rw [R.inRun] at h6
+        unfold Walked at h6 ⊢
+        cases herr : (runActs (regStep s o).1 as).2.2 with
+        | none =>
+          simp only [herr] at h6 ⊢
+          intro rest
+          simp only [List.cons_append, List.append_assoc, walk, if_true, R.started]
+          cases hrun : s.inRun with
+          | false => rw [hrun] at h6; simp only [Bool.false_eq_true, if_false, List.nil_append]; exact h6 rest
+          | true =>
+            rw [hrun] at h6
+            simp only [if_true]
+            cases hf : flaggedSink o with
+            | none => simp only [List.nil_append]; exact h6 rest
+            | some y => simp only [List.cons_append, List.nil_append, walk, if_true]; exact h6 rest
+        | some e =>
+          simp only [herr] at h6 ⊢
+          simp only [walk, if_true, R.started]
+          cases hrun : s.inRun with
+          | false => rw [hrun] at h6; simp only [Bool.false_eq_true, if_false, List.nil_append]; exact h6
+          | true =>
+            rw [hrun] at h6
+            simp only [if_true]
+            cases hf : flaggedSink o with
+            | none => simp only [List.nil_append]; exact h6
+            | some y => simp only [List.cons_append, List.nil_append, walk, if_true]; exact h6
+    · refine ⟨H, ?_, ?_, ?_, ?_, ?_, ?_⟩
+      · simpa [runActs, hx, hst] using hI
+      · simp [runActs, hx, hst]
+      · simp [runActs, hx, hst]
+      · simp [runActs, hx, hst]
+      · simp [runActs, hx, hst]
+      · simp [Walked, runActs, hx, walk, effAdd_none o hreg, flaggedSink_none o hreg]
+
+theorem actsLeft_pop : ∀ (scs : List Script) (x : Nat) (k : Kind),
+    actsLeft (popScript scs x k).1 + (popScript scs x k).2.length = actsLeft scs
+  | [], _, _ => rfl
+  | sc :: rest, x, k => by
+      simp only [popScript]
+      split
+      · split
+        · simp [actsLeft]
+        · rename_i e es he
+          simp only [actsLeft, List.map_cons, List.sum_cons, he]
+          omega
+      · have := actsLeft_pop rest x k
+        simp only [actsLeft, List.map_cons, List.sum_cons] at this ⊢
+        omega
+
+/-- one call of a sink's method by the router -/
+theorem callTop_walk (hb ff : Bool) (m : Mode) (i : Nat) (H : List Op) (s : State) (hI : Inv hb ff H s) (x : Nat)
+    (ev : SinkEv) (st : Bool) (hn : nextTop hb ff m H i = some (x, ev)) :
+    ∃ H', Inv hb ff H' (callTop s x ev).1
+      ∧ (callTop s x ev).1.inRun = s.inRun
+      ∧ s.sinks.length ≤ (callTop s x ev).1.sinks.length
+      ∧ (callTop s x ev).1.sinks.length + actsLeft (callTop s x ev).1.scripts ≤ s.sinks.length + actsLeft s.scripts
+      ∧ Walked hb ff s.inRun m i H st (callTop s x ev).2.1 (callTop s x ev).2.2 (i + 1) H' := by
+  obtain ⟨H', h1, h2, h3, h4, h5, h6⟩ := runActs_walk hb ff m (i + 1) (popScript s.scripts x (kindOf ev)).2 H
+    { s with scripts := (popScript s.scripts x (kindOf ev)).1 } (inv_scripts hb ff H s hI _)
+  refine ⟨H', h1, h2, h4, ?_, ?_⟩
+  · have := actsLeft_pop s.scripts x (kindOf ev)
+    simp only [callTop, h3]
+    simp only at h5
+    omega
+  · simp only [callTop]
+    unfold Walked at h6 ⊢
+    cases herr : (runActs { s with scripts := (popScript s.scripts x (kindOf ev)).1 } (popScript s.scripts x (kindOf ev)).2).2.2 with
+    | none =>
+      simp only [herr] at h6 ⊢
+      intro rest
+      simp only [List.cons_append, walk, hn, if_true]
+      exact h6 rest
+    | some e =>
+      simp only [herr] at h6 ⊢
+      -- the exception is not the first item
+      cases hitems : (runActs { s with scripts := (popScript s.scripts x (kindOf ev)).1 } (popScript s.scripts x (kindOf ev)).2).2.1 with
+      | nil => simp [hitems, walk] at h6
+      | cons it its => simp only [walk, hn, if_true]; rw [← hitems]; exact h6
+
+/-! ## the dispatch loop over the live list -/
+theorem loop_walk (hb ff : Bool) (ev : SinkEv) : ∀ (fuel : Nat) (s : State) (i : Nat) (H : List Op) (st : Bool),
+    Inv hb ff H s → i ≤ s.sinks.length → s.sinks.length - i + actsLeft s.scripts < fuel →
+    ∃ H', Inv hb ff H' (loop ev fuel s i).1 ∧ (loop ev fuel s i).1.inRun = s.inRun
+      ∧ walk hb ff s.inRun (.ctl ev) i H none st (loop ev fuel s i).2.1 = some ((loop ev fuel s i).2.2, H')
+  | 0, s, i, H, st, hI, hi, hf => by omega
+  | n + 1, s, i, H, st, hI, hi, hf => by
+    cases hx : s.sinks[i]? with
+    | none =>
+      have hlen : i = (flagged hb ff (regs H)).length := by
+        have := List.getElem?_eq_none_iff.mp hx
+        rw [← hI.sinks]; omega
+      refine ⟨H, by simpa [loop, hx] using hI, by simp [loop, hx], ?_⟩
+      simp only [loop, hx, walk, allDone]
+      simp [← hlen]
+    | some x =>
+      have hn : nextTop hb ff (.ctl ev) H i = some (x, ev) := by simp [nextTop, ← hI.sinks, hx]
+      have hlt : i < s.sinks.length := by
+        have := List.getElem?_eq_some_iff.mp hx
+        exact this.1
+      obtain ⟨H1, h1, h2, h3, h4, h5⟩ := callTop_walk hb ff (.ctl ev) i H s hI x ev st hn
+      cases herr : (callTop s x ev).2.2 with
+      | some e =>
+        simp only [Walked, herr] at h5
+        exact ⟨H1, by simpa [loop, hx, herr] using h1, by simpa [loop, hx, herr] using h2,
+          by simpa [loop, hx, herr] using h5⟩
+      | none =>
+        simp only [Walked, herr] at h5
+        obtain ⟨H2, g1, g2, g3⟩ := loop_walk hb ff ev n (callTop s x ev).1 (i + 1) H1 true h1 (by omega) (by omega)
+        refine ⟨H2, by simpa [loop, hx, herr] using g1, by simpa [loop, hx, herr, h2] using g2, ?_⟩
+        simp only [loop, hx, herr]
+        rw [h5, ← h2]
+        exact g3
+
+/-! ## one operation of the driver -/
+/-- an `add_rule` of the driver whose policy method succeeds -/
+theorem add_ok (hb ff : Bool) (H : List Op) (s : State) (hI : Inv hb ff H s) (o : Op) (r : Reg) (hreg : regOf o = some r)
+    (hstep : step s o = addStep s o) (hop : ∀ seg res, opOk hb ff H o seg res = addOk hb ff H o seg res) :
+    ∃ H', opOk hb ff H o (step s o).2.1 (step s o).2.2 = some H' ∧ Inv hb ff H' (step s o).1 := by
+  have R := regStep_spec hb ff H s hI o
+  have heff : effAdd o = [o] := by simp [effAdd, hreg]
+  have hok := R.resOk (by simp [hreg])
+  have hinv := R.inv
+  rw [heff] at hinv
+  rw [hstep, hop]
+  simp only [addStep, addOk, hok, R.started, ← hI.inRun]
+  cases hrun : s.inRun with
+  | false =>
+    exact ⟨H ++ [o], by cases flaggedSink o <;> simp [walk, allDone, closes], by simpa using hinv⟩
+  | true =>
+    cases hf : flaggedSink o with
+    | none => exact ⟨H ++ [o], by simp [walk, allDone, closes], by simpa using hinv⟩
+    | some y =>
+      simp only [if_true]
+      obtain ⟨H', h1, h2, h3, h4, h5⟩ := callTop_walk hb ff (.fixed [(y, .start)]) 0 (H ++ [o]) (regStep s o).1 hinv y .start false
+        (by simp [nextTop])
+      rw [R.inRun, hrun] at h5
+      refine ⟨H', ?_, h1⟩
+      cases herr : (callTop (regStep s o).1 y .start).2.2 with
+      | none =>
+        simp only [Walked, herr] at h5
+        have := h5 []
+        simp only [List.append_nil] at this
+        simp [this, walk, allDone, closes, resOf]
+      | some x =>
+        simp only [Walked, herr] at h5
+        simp [h5, closes, resOf]
+
+theorem step_ok (hb ff : Bool) (H : List Op) (s : State) (hI : Inv hb ff H s) (o : Op) :
+    ∃ H', opOk hb ff H o (step s o).2.1 (step s o).2.2 = some H' ∧ Inv hb ff H' (step s o).1 := by
+  have hrun := hI.inRun
   cases o with
   | start =>
-    refine ⟨hI.fallback, ?_, ?_, ?_, ?_⟩ <;> simp [step, regs_snoc, regOf, inRun_snoc, hI.prefixes, hI.ids, hI.sinks]
+    obtain ⟨H', h1, h2, h3⟩ := loop_walk hb ff .start (fuelOf s) s 0 H false hI (Nat.zero_le _) (by simp [fuelOf])
+    cases herr : (loop .start (fuelOf s) s 0).2.2 with
+    | none =>
+      refine ⟨H' ++ [.start], by simp [opOk, step, herr, ← hrun, h3, closes], ?_⟩
+      simp only [step, herr]
+      exact ⟨h1.fallback, by simp [regs_snoc, regOf, h1.prefixes], by simp [regs_snoc, regOf, h1.ids],
+        by simp [regs_snoc, regOf, h1.sinks], by simp [inRun_snoc]⟩
+    | some x => exact ⟨H', by simp [opOk, step, herr, ← hrun, h3, closes], by simpa [step, herr] using h1⟩
   | stop =>
-    refine ⟨hI.fallback, ?_, ?_, ?_, ?_⟩ <;> simp [step, regs_snoc, regOf, inRun_snoc, hI.prefixes, hI.ids, hI.sinks]
-  | addBad sink flag =>
-    refine ⟨hI.fallback, ?_, ?_, ?_, ?_⟩ <;>
-      simp [step, regs_snoc, regOf, inRun_snoc, hI.prefixes, hI.ids, hI.sinks, hI.inRun]
+    obtain ⟨H', h1, h2, h3⟩ := loop_walk hb ff .stop (fuelOf s) s 0 H false hI (Nat.zero_le _) (by simp [fuelOf])
+    cases herr : (loop .stop (fuelOf s) s 0).2.2 with
+    | none =>
+      refine ⟨H' ++ [.stop], by simp [opOk, step, herr, ← hrun, h3, closes], ?_⟩
+      simp only [step, herr]
+      exact ⟨h1.fallback, by simp [regs_snoc, regOf, h1.prefixes], by simp [regs_snoc, regOf, h1.ids],
+        by simp [regs_snoc, regOf, h1.sinks], by simp [inRun_snoc]⟩
+    | some x => exact ⟨H', by simp [opOk, step, herr, ← hrun, h3, closes], by simpa [step, herr] using h1⟩
   | status e =>
-    have : (step s (.status e)).1 = s := by simp only [step]; split <;> rfl
-    rw [this]
-    refine ⟨hI.fallback, ?_, ?_, ?_, ?_⟩ <;>
-      simp [regs_snoc, regOf, inRun_snoc, hI.prefixes, hI.ids, hI.sinks, hI.inRun]
+    simp only [opOk, step, route_eq hb ff H s hI e]
+    cases hd : destination hb (regs H) e with
+    | none => exact ⟨H, by simp, hI⟩
+    | some d =>
+      obtain ⟨sink, e'⟩ := d
+      obtain ⟨H', h1, h2, h3, h4, h5⟩ := callTop_walk hb ff (.fixed [(sink, .status e')]) 0 H s hI sink (.status e') false
+        (by simp [nextTop])
+      refine ⟨H', ?_, h1⟩
+      simp only [← hrun]
+      cases herr : (callTop s sink (.status e')).2.2 with
+      | none =>
+        simp only [Walked, herr] at h5
+        have := h5 []
+        simp only [List.append_nil] at this
+        simp [this, walk, allDone, closes, resOf]
+      | some x =>
+        simp only [Walked, herr] at h5
+        simp [h5, closes, resOf]
   | roundTrip codes e =>
-    have : (step s (.roundTrip codes e)).1 = s := by
+    have hst : (step s (.roundTrip codes e)).1 = s ∧ (step s (.roundTrip codes e)).2.1 = [] := by
       simp only [step]; split
-      · rfl
-      · split <;> rfl
-    rw [this]
-    refine ⟨hI.fallback, ?_, ?_, ?_, ?_⟩ <;>
-      simp [regs_snoc, regOf, inRun_snoc, hI.prefixes, hI.ids, hI.sinks, hI.inRun]
+      · exact ⟨rfl, rfl⟩
+      · split <;> exact ⟨rfl, rfl⟩
+    refine ⟨H, ?_, by rw [hst.1]; exact hI⟩
+    have hc : ((step s (.roundTrip codes e)).2.1.isEmpty &&
+        (codes.any (fun c => c.contains '/' || c.isEmpty) || e.route == some [] || (step s (.roundTrip codes e)).2.2 == .arrived e)) = true := by
+      rw [hst.2]
+      simp only [List.isEmpty_nil, Bool.true_and, Bool.or_eq_true]
+      by_cases h1 : codes.any (fun c => c.contains '/' || c.isEmpty) = true
+      · exact Or.inl (Or.inl h1)
+      · by_cases h2 : e.route = some []
+        · exact Or.inl (Or.inr (by simp [h2]))
+        · right
+          simp only [List.any_eq_true, Bool.or_eq_true, not_exists, not_and, not_or, Bool.not_eq_true] at h1
+          have hc : ∀ c ∈ codes, '/' ∉ c ∧ c ≠ [] := by
+            intro c hc
+            obtain ⟨a, b⟩ := h1 c hc
+            exact ⟨by simpa using a, by simpa using b⟩
+          have hno : codes.any (fun c => c.contains '/') = false := by
+            simp only [List.any_eq_false]
+            intro c hc'; simpa using (h1 c hc').1
+          simp only [step, hno, Bool.false_eq_true, if_false, C18_inverse_nested codes hc e h2]
+          simp
+    simp only [opOk, hc, if_true]
+  | addBad sink flag => exact ⟨H, by simp [opOk, step, addStep, regStep, regOf], by simpa [step, addStep, regStep] using hI⟩
   | addPrefix sink p consume flag =>
+    have R := regStep_spec hb ff H s hI (.addPrefix sink p consume flag)
     by_cases hp : '/' ∈ p
-    · have : (step s (.addPrefix sink p consume flag)).1 = s := by simp [step, hp]
-      rw [this]
-      refine ⟨hI.fallback, ?_, ?_, ?_, ?_⟩ <;>
-        simp [regs_snoc, regOf, hp, inRun_snoc, hI.prefixes, hI.ids, hI.sinks, hI.inRun]
-    · have hreg : regs (hist ++ [.addPrefix sink p consume flag]) = regs hist ++ [.pfx sink p consume flag] := by
-        simp [regs_snoc, regOf, hp]
-      simp only [step, List.contains_eq_mem, hp, decide_false, Bool.false_eq_true, if_false, registered]
-      cases flag
-      · refine ⟨hI.fallback, fun seg => ?_, fun t => ?_, ?_, ?_⟩
-        · simp [hreg, prefixRule_snoc, dictGet_set, hI.prefixes]
-        · simp [hreg, idRule_snoc, hI.ids]
-        · simp [hreg, flagged_snoc, hI.sinks]
-        · simp [inRun_snoc, hI.inRun]
-      · refine ⟨hI.fallback, fun seg => ?_, fun t => ?_, ?_, ?_⟩
-        · simp [hreg, prefixRule_snoc, dictGet_set, hI.prefixes]
-        · simp [hreg, idRule_snoc, hI.ids]
-        · simp [hreg, flagged_snoc, hI.sinks]
-        · simp [inRun_snoc, hI.inRun]
+    · exact ⟨H, by simp [opOk, step, addStep, regStep, regOf, hp], by simpa [step, addStep, regStep, hp] using hI⟩
+    · have hreg : regOf (.addPrefix sink p consume flag) = some (.pfx sink p consume flag) := by simp [regOf, hp]
+      exact add_ok hb ff H s hI _ _ hreg (by simp [step]) (by simp [opOk, hreg])
   | addId sink t flag =>
-    have hreg : regs (hist ++ [.addId sink t flag]) = regs hist ++ [.tid sink t flag] := by
-      simp [regs_snoc, regOf]
-    simp only [step, registered]
-    cases flag
-    · refine ⟨hI.fallback, fun seg => ?_, fun t' => ?_, ?_, ?_⟩
-      · simp [hreg, prefixRule_snoc, hI.prefixes]
-      · simp [hreg, idRule_snoc, dictGet_set, hI.ids]
-      · simp [hreg, flagged_snoc, hI.sinks]
-      · simp [inRun_snoc, hI.inRun]
-    · refine ⟨hI.fallback, fun seg => ?_, fun t' => ?_, ?_, ?_⟩
-      · simp [hreg, prefixRule_snoc, hI.prefixes]
-      · simp [hreg, idRule_snoc, dictGet_set, hI.ids]
-      · simp [hreg, flagged_snoc, hI.sinks]
-      · simp [inRun_snoc, hI.inRun]
+    have hreg : regOf (.addId sink t flag) = some (.tid sink t flag) := by simp [regOf]
+    exact add_ok hb ff H s hI _ _ hreg (by simp [step]) (by simp [opOk, hreg])
 
-/-- what one operation delivers: its status delivery (at most one) and its start/stop deliveries -/
-theorem step_deliveries (hb ff : Bool) (hist : List Op) (s : State) (hI : Inv hb ff hist s) (o : Op) :
-    (step s o).2.1 = expectStatus hb hist o ++ expectCtl hb ff hist o := by
-  cases o with
-  | start => simp [step, expectStatus, expectCtl, hI.sinks]
-  | stop => simp [step, expectStatus, expectCtl, hI.sinks]
-  | addBad sink flag => simp [step, expectStatus, expectCtl, regOf]
-  | status e =>
-    simp only [step, expectStatus, expectCtl, regOf, route_eq hb ff hist s hI e]
-    cases destination hb (regs hist) e with
-    | none => rfl
-    | some d => rfl
-  | roundTrip codes e =>
-    simp only [step, expectStatus, expectCtl, regOf]
-    split
-    · rfl
-    · split <;> rfl
-  | addPrefix sink p consume flag =>
-    by_cases hp : '/' ∈ p
-    · simp [step, hp, expectStatus, expectCtl, regOf]
-    · cases flag <;> simp [step, hp, expectStatus, expectCtl, regOf, registered, hI.inRun]
-  | addId sink t flag =>
-    cases flag <;> simp [step, expectStatus, expectCtl, regOf, registered, hI.inRun]
-
-theorem expectStatus_isStatus (hb : Bool) (hist : List Op) (o : Op) :
-    (expectStatus hb hist o).filter (fun d => isStatus d.2) = expectStatus hb hist o
-    ∧ (expectStatus hb hist o).filter (fun d => !isStatus d.2) = [] := by
-  cases o <;> simp [expectStatus]
-  split <;> simp [isStatus]
-
-theorem expectCtl_notStatus (hb ff : Bool) (hist : List Op) (o : Op) :
-    (expectCtl hb ff hist o).filter (fun d => isStatus d.2) = []
-    ∧ (expectCtl hb ff hist o).filter (fun d => !isStatus d.2) = expectCtl hb ff hist o := by
-  have hall : ∀ d ∈ expectCtl hb ff hist o, isStatus d.2 = false := by
-    intro d hd
-    cases o with
-    | start => simp [expectCtl] at hd; obtain ⟨_, _, rfl⟩ := hd; rfl
-    | stop => simp [expectCtl] at hd; obtain ⟨_, _, rfl⟩ := hd; rfl
-    | addBad sink flag => simp [expectCtl, regOf] at hd
-    | status e => simp [expectCtl, regOf] at hd
-    | roundTrip codes e => simp [expectCtl, regOf] at hd
-    | addPrefix sink p consume flag =>
-      simp only [expectCtl, regOf] at hd
-      split at hd
-      · split at hd <;> simp_all [isStatus]
-      · split at hd <;> simp_all [isStatus]
-      · simp at hd
-    | addId sink t flag =>
-      simp only [expectCtl, regOf] at hd
-      split at hd
-      · split at hd <;> simp_all [isStatus]
-      · split at hd <;> simp_all [isStatus]
-      · simp at hd
-  constructor
-  · rw [List.filter_eq_nil_iff]; intro d hd; simp [hall d hd]
-  · rw [List.filter_eq_self]; intro d hd; simp [hall d hd]
-
-theorem run_deliveries (hb ff : Bool) : ∀ (os hist : List Op) (s : State), Inv hb ff hist s →
-    (run s os).1.filter (fun d => isStatus d.2) = overHistory (expectStatus hb) hist os
-    ∧ (run s os).1.filter (fun d => !isStatus d.2) = overHistory (expectCtl hb ff) hist os
-  | [], _, _, _ => by simp [run, overHistory]
-  | o :: os, hist, s, hI => by
-      obtain ⟨ih1, ih2⟩ := run_deliveries hb ff os (hist ++ [o]) _ (inv_step hb ff hist s hI o)
-      simp only [run, overHistory, List.filter_append, step_deliveries hb ff hist s hI o, ih1, ih2,
-        (expectStatus_isStatus hb hist o).1, (expectStatus_isStatus hb hist o).2,
-        (expectCtl_notStatus hb ff hist o).1, (expectCtl_notStatus hb ff hist o).2]
-      simp
-
-theorem step_result (hb ff : Bool) (hist : List Op) (s : State) (hI : Inv hb ff hist s) (o : Op) :
-    expectRes hb hist o (step s o).2.2 = true := by
-  cases o with
-  | start => simp [step, expectRes]
-  | stop => simp [step, expectRes]
-  | addBad sink flag => simp [expectRes]
-  | addPrefix sink p consume flag => simp [expectRes]
-  | addId sink t flag => simp [expectRes]
-  | status e =>
-    simp only [step, expectRes, route_eq hb ff hist s hI e]
-    cases destination hb (regs hist) e <;> simp
-  | roundTrip codes e =>
-    simp only [expectRes, Bool.or_eq_true]
-    by_cases h1 : codes.any (fun c => c.contains '/' || c.isEmpty) = true
-    · exact Or.inl (Or.inl h1)
-    · by_cases h2 : e.route = some []
-      · exact Or.inl (Or.inr (by simp [h2]))
-      · right
-        simp only [List.any_eq_true, Bool.or_eq_true, not_exists, not_and, not_or, Bool.not_eq_true] at h1
-        have hc : ∀ c ∈ codes, '/' ∉ c ∧ c ≠ [] := by
-          intro c hc
-          obtain ⟨a, b⟩ := h1 c hc
-          exact ⟨by simpa using a, by simpa using b⟩
-        have hno : codes.any (fun c => c.contains '/') = false := by
-          simp only [List.any_eq_false]
-          intro c hc'; simpa using (h1 c hc').1
-        simp only [step, hno, Bool.false_eq_true, if_false, C18_inverse_nested codes hc e h2]
-        simp
-
-theorem run_results (hb ff : Bool) : ∀ (os hist : List Op) (s : State), Inv hb ff hist s →
-    resultsOk hb hist os (run s os).2 = true
+theorem run_ok (hb ff : Bool) : ∀ (os H : List Op) (s : State), Inv hb ff H s →
+    historyOk hb ff H os (run s os).1 (run s os).2 = true
   | [], _, _, _ => rfl
-  | o :: os, hist, s, hI => by
-      simp only [run, resultsOk, step_result hb ff hist s hI o, Bool.true_and]
-      exact run_results hb ff os (hist ++ [o]) _ (inv_step hb ff hist s hI o)
+  | o :: os, H, s, hI => by
+      obtain ⟨H', h1, h2⟩ := step_ok hb ff H s hI o
+      have := run_ok hb ff os H' _ h2
+      simp only [historyOk] at this ⊢
+      simp only [run, finalHist, h1]
+      exact this
+
+/-- **C18 (whole histories)**: for every script of driver operations and every scripted behaviour of the sinks
+(re-entrant `add_rule` from inside `startTestRun` / `stopTestRun` / `status`, exceptions), what is observed passes the
+reading of the property `historyOk`: each status reaches exactly the one sink `destination` names; each
+`startTestRun` / `stopTestRun` calls every sink registered for them — before or *during* the dispatch — exactly once,
+in registration order, and makes no other call; a rule added with the flag is started at once iff a run is in progress
+(which is the case only between a `startTestRun` and a `stopTestRun` that both returned); an exception raised by a
+sink ends the operation at that point and reaches the driver. -/
+theorem C18_history (i : Input) : cHistory i (model i) = true :=
+  run_ok i.hasFallback i.fbFlag i.ops [] _ (inv_init' i.hasFallback i.fbFlag i.scripts)
+
+/-! ## per sink: starts and stops alternate
+This part argues about *any* trace that passes `historyOk` (the reading of the property), not about the model. -/
+/-- the start/stop automaton of one sink: `some running` after a legal sequence, `none` after an illegal one -/
+def auto : Bool → List Bool → Option Bool
+  | r, [] => some r
+  | r, b :: l => if b != r then auto b l else none
+
+theorem alternates_iff (e : Bool) (l : List Bool) : alternates e l = (auto (!e) l).isSome := by
+  induction l generalizing e with
+  | nil => rfl
+  | cons b l ih =>
+    simp only [alternates, auto]
+    cases b <;> cases e <;> simp [ih]
+
+theorem auto_append (r : Bool) (l1 l2 : List Bool) : auto r (l1 ++ l2) = (auto r l1).bind fun r' => auto r' l2 := by
+  induction l1 generalizing r with
+  | nil => rfl
+  | cons b l1 ih =>
+    simp only [List.cons_append, auto]
+    split
+    · exact ih b
+    · rfl
+
+theorem ctlOf_append (x : Nat) (a b : List Item) : ctlOf x (a ++ b) = ctlOf x a ++ ctlOf x b := by
+  induction a with
+  | nil => rfl
+  | cons it a ih =>
+    cases it with
+    | del y ev n => cases ev <;> simp only [List.cons_append, ctlOf, ih] <;> split <;> simp
+    | radd o => simpa [ctlOf] using ih
+    | exc e => simpa [ctlOf] using ih
+
+/-- the state of sink `x` after the log `L` -/
+def stOf (x : Nat) (L : List Item) : Option Bool := auto false (ctlOf x L)
+
+theorem stOf_snoc_other (x : Nat) (L : List Item) (it : Item) (h : ctlOf x [it] = []) : stOf x (L ++ [it]) = stOf x L := by
+  simp [stOf, ctlOf_append, h]
+
+theorem stOf_snoc_start (x : Nat) (L : List Item) (n : Bool) (h : stOf x L = some false) :
+    stOf x (L ++ [.del x .start n]) = some true := by
+  simp only [stOf, ctlOf_append, auto_append] at h ⊢
+  simp [h, ctlOf, auto]
+
+theorem stOf_snoc_stop (x : Nat) (L : List Item) (n : Bool) (h : stOf x L = some true) :
+    stOf x (L ++ [.del x .stop n]) = some false := by
+  simp only [stOf, ctlOf_append, auto_append] at h ⊢
+  simp [h, ctlOf, auto]
+
+theorem ctlOf_del_ne (x y : Nat) (ev : SinkEv) (n : Bool) (h : y ≠ x) : ctlOf x [.del y ev n] = [] := by
+  cases ev <;> simp [ctlOf, h]
+
+theorem ctlOf_status (x y : Nat) (e : Event) (n : Bool) : ctlOf x [.del y (.status e) n] = [] := by simp [ctlOf]
+
+/-- who is registered for start/stop after the history `h` -/
+abbrev F (hb ff : Bool) (h : List Op) : List Nat := flagged hb ff (regs h)
+
+theorem filterMap_congr'' {α β : Type} {f g : α → Option β} : ∀ {l : List α}, (∀ a ∈ l, f a = g a) → l.filterMap f = l.filterMap g
+  | [], _ => rfl
+  | a :: l, h => by
+      simp only [List.filterMap_cons, h a List.mem_cons_self]
+      rw [filterMap_congr'' (fun b hb => h b (List.mem_cons_of_mem _ hb))]
+
+theorem F_append (hb ff : Bool) (h X : List Op) : F hb ff (h ++ X) = F hb ff h ++ X.filterMap flaggedSink := by
+  simp only [F, flagged, regs, List.filterMap_append, List.append_assoc, List.filterMap_filterMap]
+  congr 2
+  apply filterMap_congr''
+  intro o _
+  simp only [flaggedSink]
+  cases regOf o with
+  | none => rfl
+  | some r => cases r with
+    | pfx s p c fl => cases fl <;> rfl
+    | tid s t fl => cases fl <;> rfl
+
+theorem F_effAdd (hb ff : Bool) (h : List Op) (o : Op) : F hb ff (h ++ effAdd o) = F hb ff h ++ (flaggedSink o).toList := by
+  rw [F_append]
+  unfold effAdd
+  cases hr : regOf o with
+  | none => simp [flaggedSink, hr]
+  | some r => cases hf : flaggedSink o <;> simp [hf]
+
+theorem F_ctl (hb ff : Bool) (h : List Op) (o : Op) (ho : o = .start ∨ o = .stop) : F hb ff (h ++ [o]) = F hb ff h := by
+  rw [F_append]; rcases ho with rfl | rfl <;> simp [flaggedSink, regOf]
+
+/-- the walker only extends the history -/
+theorem walk_prefix (hb ff ρ : Bool) (m : Mode) : ∀ (seg : List Item) (i : Nat) (h : List Op) (pend : Option Nat) (st : Bool)
+    (e : Option String) (h' : List Op), walk hb ff ρ m i h pend st seg = some (e, h') → ∃ X, h' = h ++ X := by
+  intro seg
+  induction seg with
+  | nil =>
+    intro i h pend st e h' hw
+    cases pend with
+    | some y => simp [walk] at hw
+    | none =>
+      simp only [walk] at hw
+      split at hw
+      · simp only [Option.some.injEq, Prod.mk.injEq] at hw; exact ⟨[], by simp [hw.2]⟩
+      · simp at hw
+  | cons it seg ih =>
+    intro i h pend st e h' hw
+    cases pend with
+    | some y =>
+      cases it with
+      | del x ev n =>
+        cases ev <;> cases n <;> simp only [walk] at hw <;> try (simp at hw)
+        exact ih _ _ _ _ _ _ hw.2
+      | radd o => simp [walk] at hw
+      | exc x => simp [walk] at hw
+    | none =>
+      cases it with
+      | del x ev n =>
+        cases n with
+        | true => simp [walk] at hw
+        | false =>
+          simp only [walk] at hw
+          split at hw
+          · exact ih _ _ _ _ _ _ hw
+          · simp at hw
+      | radd o =>
+        simp only [walk] at hw
+        split at hw
+        · obtain ⟨X, hX⟩ := ih _ _ _ _ _ _ hw
+          exact ⟨effAdd o ++ X, by rw [hX, List.append_assoc]⟩
+        · simp at hw
+      | exc x =>
+        cases seg with
+        | nil =>
+          simp only [walk] at hw
+          split at hw
+          · simp only [Option.some.injEq, Prod.mk.injEq] at hw; exact ⟨[], by simp [hw.2]⟩
+          · simp at hw
+        | cons a b => simp [walk] at hw
+
+theorem walk_exc (hb ff ρ : Bool) (m : Mode) : ∀ (seg : List Item) (i : Nat) (h : List Op) (pend : Option Nat) (st : Bool)
+    (x : String) (h' : List Op), walk hb ff ρ m i h pend st seg = some (some x, h') → hasExc seg = true := by
+  intro seg
+  induction seg with
+  | nil =>
+    intro i h pend st x h' hw
+    cases pend with
+    | some y => simp [walk] at hw
+    | none => simp only [walk] at hw; split at hw <;> simp at hw
+  | cons it seg ih =>
+    intro i h pend st x h' hw
+    cases it with
+    | exc e => simp [hasExc]
+    | radd o =>
+      cases pend with
+      | some y => simp [walk] at hw
+      | none =>
+        simp only [walk] at hw
+        split at hw
+        · have := ih _ _ _ _ _ _ hw; simpa [hasExc] using this
+        · simp at hw
+    | del y ev n =>
+      cases pend with
+      | some p =>
+        cases ev <;> cases n <;> simp only [walk] at hw <;> try (simp at hw)
+        have := ih _ _ _ _ _ _ hw.2; simpa [hasExc] using this
+      | none =>
+        cases n with
+        | true => simp [walk] at hw
+        | false =>
+          simp only [walk] at hw
+          split at hw
+          · have := ih _ _ _ _ _ _ hw; simpa [hasExc] using this
+          · simp at hw
+
+/-- how a walk without exception proceeds (nothing pending) -/
+theorem walk_inv_none (hb ff ρ : Bool) (m : Mode) (seg : List Item) (i : Nat) (h : List Op) (st : Bool) (h' : List Op)
+    (hw : walk hb ff ρ m i h none st seg = some (none, h')) :
+    (seg = [] ∧ allDone hb ff m h i = true ∧ h' = h)
+    ∨ (∃ o r, seg = .radd o :: r ∧ st = true
+        ∧ walk hb ff ρ m i (h ++ effAdd o) (if ρ then flaggedSink o else none) st r = some (none, h'))
+    ∨ (∃ x ev r, seg = .del x ev false :: r ∧ nextTop hb ff m h i = some (x, ev)
+        ∧ walk hb ff ρ m (i + 1) h none true r = some (none, h')) := by
+  cases seg with
+  | nil =>
+    simp only [walk] at hw
+    split at hw
+    · rename_i hd; simp only [Option.some.injEq, Prod.mk.injEq, true_and] at hw; exact Or.inl ⟨rfl, hd, hw.symm⟩
+    · simp at hw
+  | cons it r =>
+    cases it with
+    | del x ev n =>
+      cases n with
+      | true => simp [walk] at hw
+      | false =>
+        simp only [walk] at hw
+        split at hw
+        · rename_i hn; exact Or.inr (Or.inr ⟨x, ev, r, rfl, hn, hw⟩)
+        · simp at hw
+    | radd o =>
+      simp only [walk] at hw
+      split at hw
+      · rename_i hst; exact Or.inr (Or.inl ⟨o, r, rfl, hst, hw⟩)
+      · simp at hw
+    | exc x =>
+      cases r with
+      | nil => simp only [walk] at hw; split at hw <;> simp at hw
+      | cons a b => simp [walk] at hw
+
+theorem walk_inv_some (hb ff ρ : Bool) (m : Mode) (seg : List Item) (i : Nat) (h : List Op) (y : Nat) (st : Bool)
+    (e : Option String) (h' : List Op) (hw : walk hb ff ρ m i h (some y) st seg = some (e, h')) :
+    ∃ r, seg = .del y .start true :: r ∧ walk hb ff ρ m i h none st r = some (e, h') := by
+  cases seg with
+  | nil => simp [walk] at hw
+  | cons it r =>
+    cases it with
+    | del x ev n =>
+      cases ev <;> cases n <;> simp only [walk] at hw <;> try (simp at hw)
+      obtain ⟨rfl, hw⟩ := hw
+      exact ⟨r, rfl, hw⟩
+    | radd o => simp [walk] at hw
+    | exc x => simp [walk] at hw
+
+theorem nodup_getElem_not_mem_take {l : List Nat} (hn : l.Nodup) {i : Nat} {x : Nat} (hx : l[i]? = some x) :
+    x ∉ l.take i ∧ x ∈ l.drop i ∧ x ∉ l.drop (i + 1) := by
+  obtain ⟨hi, rfl⟩ := List.getElem?_eq_some_iff.mp hx
+  have hsplit : l = l.take i ++ l[i] :: l.drop (i + 1) := by
+    conv => lhs; rw [← List.take_append_drop i l, List.drop_eq_getElem_cons hi]
+  rw [hsplit] at hn
+  have hd : l.drop i = l[i] :: l.drop (i + 1) := List.drop_eq_getElem_cons hi
+  rw [List.nodup_append] at hn
+  obtain ⟨_, h2, h3⟩ := hn
+  refine ⟨fun hm => h3 _ hm _ (List.mem_cons_self) rfl, by rw [hd]; exact List.mem_cons_self, ?_⟩
+  exact (List.nodup_cons.mp h2).1
+
+theorem mem_take_succ {l : List Nat} {i : Nat} {x z : Nat} (hx : l[i]? = some x) :
+    z ∈ l.take (i + 1) ↔ z ∈ l.take i ∨ z = x := by
+  obtain ⟨hi, rfl⟩ := List.getElem?_eq_some_iff.mp hx
+  rw [List.take_succ_eq_append_getElem hi]
+  simp only [List.mem_append, List.mem_singleton]
+
+theorem mem_drop_split {l : List Nat} {i : Nat} {x z : Nat} (hx : l[i]? = some x) :
+    z ∈ l.drop i ↔ z = x ∨ z ∈ l.drop (i + 1) := by
+  obtain ⟨hi, rfl⟩ := List.getElem?_eq_some_iff.mp hx
+  rw [List.drop_eq_getElem_cons hi]
+  simp only [List.mem_cons]
+
+/-- `startTestRun` with no run in progress: afterwards exactly the registered sinks are running -/
+theorem walk_alt_start (hb ff : Bool) : ∀ (seg : List Item) (i : Nat) (h : List Op) (st : Bool) (L : List Item) (h' : List Op),
+    walk hb ff false (.ctl .start) i h none st seg = some (none, h') → (F hb ff h').Nodup → i ≤ (F hb ff h).length →
+    (∀ x, stOf x L = some (decide (x ∈ (F hb ff h).take i))) →
+    ∀ x, stOf x (L ++ seg) = some (decide (x ∈ F hb ff h')) := by
+  intro seg
+  induction seg with
+  | nil =>
+    intro i h st L h' hw hn hi hinv x
+    rcases walk_inv_none _ _ _ _ _ _ _ _ _ hw with ⟨_, hd, rfl⟩ | ⟨o, r, hs, _⟩ | ⟨y, ev, r, hs, _⟩
+    · simp only [allDone, beq_iff_eq] at hd
+      simpa [hd] using hinv x
+    · simp at hs
+    · simp at hs
+  | cons it seg ih =>
+    intro i h st L h' hw hn hi hinv x
+    rcases walk_inv_none _ _ _ _ _ _ _ _ _ hw with ⟨hs, _⟩ | ⟨o, r, hs, hst, hw'⟩ | ⟨y, ev, r, hs, hnt, hw'⟩
+    · simp at hs
+    · obtain ⟨rfl, rfl⟩ := List.cons.inj hs
+      simp only [Bool.false_eq_true, if_false] at hw'
+      have := ih i (h ++ effAdd o) st (L ++ [.radd o]) h' hw' hn
+        (by rw [F_effAdd]; simp only [List.length_append]; omega)
+        (fun z => by
+          rw [stOf_snoc_other z L _ (by simp [ctlOf]), F_effAdd, List.take_append_of_le_length hi]
+          exact hinv z) x
+      simpa using this
+    · obtain ⟨rfl, rfl⟩ := List.cons.inj hs
+      simp only [nextTop, Option.map_eq_some_iff, Prod.mk.injEq] at hnt
+      obtain ⟨y', hy, rfl, rfl⟩ := hnt
+      obtain ⟨X, hX⟩ := walk_prefix _ _ _ _ _ _ _ _ _ _ _ hw'
+      have hnh : (F hb ff h).Nodup := by
+        rw [hX, F_append] at hn; exact (List.nodup_append.mp hn).1
+      obtain ⟨hnot, _, _⟩ := nodup_getElem_not_mem_take hnh hy
+      have hlt : i < (F hb ff h).length := (List.getElem?_eq_some_iff.mp hy).1
+      have := ih (i + 1) h true (L ++ [.del y' .start false]) h' hw' hn (by omega)
+        (fun z => by
+          by_cases hz : z = y'
+          · subst hz
+            rw [stOf_snoc_start z L false (by simpa [hnot] using hinv z)]
+            simp [mem_take_succ hy]
+          · rw [stOf_snoc_other z L _ (ctlOf_del_ne z y' _ _ (fun hh => hz hh.symm)), hinv z]
+            simp [mem_take_succ hy, hz]) x
+      simpa using this
+
+theorem pend_ne (y z : Nat) (h : z ≠ y) : ((some y : Option Nat) != some z) = true := by
+  simp [bne_iff_ne]; exact fun hh => h hh.symm
+theorem pend_self (z : Nat) : ((some z : Option Nat) != some z) = false := by simp
+theorem pend_none (z : Nat) : ((none : Option Nat) != some z) = true := by simp
+
+/-- `stopTestRun` with a run in progress: afterwards no sink is running — also the sinks registered (and started at
+once) while the dispatch was under way have been stopped -/
+theorem walk_alt_stop (hb ff : Bool) : ∀ (seg : List Item) (i : Nat) (h : List Op) (pend : Option Nat) (st : Bool)
+    (L : List Item) (h' : List Op),
+    walk hb ff true (.ctl .stop) i h pend st seg = some (none, h') → (F hb ff h').Nodup → i ≤ (F hb ff h).length →
+    (∀ y, pend = some y → y ∈ (F hb ff h).drop i) →
+    (∀ x, stOf x L = some (decide (x ∈ (F hb ff h).drop i) && (pend != some x))) →
+    ∀ x, stOf x (L ++ seg) = some false := by
+  intro seg
+  induction seg with
+  | nil =>
+    intro i h pend st L h' hw hn hi hp hinv x
+    cases pend with
+    | some y => obtain ⟨r, hs, _⟩ := walk_inv_some _ _ _ _ _ _ _ _ _ _ _ hw; simp at hs
+    | none =>
+      rcases walk_inv_none _ _ _ _ _ _ _ _ _ hw with ⟨_, hd, rfl⟩ | ⟨o, r, hs, _⟩ | ⟨y, ev, r, hs, _⟩
+      · simp only [allDone, beq_iff_eq] at hd
+        simpa [hd, pend_none] using hinv x
+      · simp at hs
+      · simp at hs
+  | cons it seg ih =>
+    intro i h pend st L h' hw hn hi hp hinv x
+    cases pend with
+    | some y =>
+      obtain ⟨r, hs, hw'⟩ := walk_inv_some _ _ _ _ _ _ _ _ _ _ _ hw
+      obtain ⟨rfl, rfl⟩ := List.cons.inj hs
+      have := ih i h none st (L ++ [.del y .start true]) h' hw' hn hi (by simp)
+        (fun z => by
+          by_cases hz : z = y
+          · subst hz
+            rw [stOf_snoc_start z L true (by simpa [pend_self] using hinv z)]
+            simp [hp z rfl, pend_none]
+          · rw [stOf_snoc_other z L _ (ctlOf_del_ne z y _ _ (fun hh => hz hh.symm)), hinv z]
+            simp [pend_ne y z hz, pend_none]) x
+      simpa using this
+    | none =>
+      rcases walk_inv_none _ _ _ _ _ _ _ _ _ hw with ⟨hs, _⟩ | ⟨o, r, hs, hst, hw'⟩ | ⟨y, ev, r, hs, hnt, hw'⟩
+      · simp at hs
+      · obtain ⟨rfl, rfl⟩ := List.cons.inj hs
+        simp only [if_true] at hw'
+        obtain ⟨X, hX⟩ := walk_prefix _ _ _ _ _ _ _ _ _ _ _ hw'
+        have hnh : (F hb ff (h ++ effAdd o)).Nodup := by
+          rw [hX, F_append] at hn; exact (List.nodup_append.mp hn).1
+        rw [F_effAdd] at hnh
+        have := ih i (h ++ effAdd o) (flaggedSink o) st (L ++ [.radd o]) h' hw' hn
+          (by rw [F_effAdd]; simp only [List.length_append]; omega)
+          (fun y hy => by
+            rw [F_effAdd, hy, List.drop_append_of_le_length hi]
+            simp)
+          (fun z => by
+            rw [stOf_snoc_other z L _ (by simp [ctlOf]), F_effAdd, List.drop_append_of_le_length hi, hinv z]
+            cases hf : flaggedSink o with
+            | none => simp [pend_none]
+            | some y =>
+              rw [hf] at hnh
+              by_cases hz : z = y
+              · subst hz
+                have : z ∉ F hb ff h := by
+                  intro hm
+                  have := (List.nodup_append.mp hnh).2.2 z hm z (by simp)
+                  exact this rfl
+                have : z ∉ (F hb ff h).drop i := fun hm => this (List.mem_of_mem_drop hm)
+                simp [this, pend_self]
+              · simp [hz, pend_ne y z hz, pend_none]) x
+        simpa using this
+      · obtain ⟨rfl, rfl⟩ := List.cons.inj hs
+        simp only [nextTop, Option.map_eq_some_iff, Prod.mk.injEq] at hnt
+        obtain ⟨y', hy, rfl, rfl⟩ := hnt
+        obtain ⟨X, hX⟩ := walk_prefix _ _ _ _ _ _ _ _ _ _ _ hw'
+        have hnh : (F hb ff h).Nodup := by
+          rw [hX, F_append] at hn; exact (List.nodup_append.mp hn).1
+        obtain ⟨_, hin, hnot⟩ := nodup_getElem_not_mem_take hnh hy
+        have hlt : i < (F hb ff h).length := (List.getElem?_eq_some_iff.mp hy).1
+        have := ih (i + 1) h none true (L ++ [.del y' .stop false]) h' hw' hn (by omega) (by simp)
+          (fun z => by
+            by_cases hz : z = y'
+            · subst hz
+              rw [stOf_snoc_stop z L false (by simpa [hin, pend_none] using hinv z)]
+              simp [hnot, pend_none]
+            · rw [stOf_snoc_other z L _ (ctlOf_del_ne z y' _ _ (fun hh => hz hh.symm)), hinv z]
+              simp [mem_drop_split hy, hz, pend_none]) x
+        simpa using this
+
+def startsIn (ds : List (Nat × SinkEv)) : List Nat :=
+  ds.filterMap fun p => match p.2 with | .start => some p.1 | _ => none
+
+/-- an operation during which the router itself makes at most one call (a status, or the immediate start of a rule just
+added): afterwards exactly the registered sinks are running if a run is in progress, none otherwise -/
+theorem walk_alt_fixed (hb ff ρ : Bool) (ds : List (Nat × SinkEv)) (hlen : ds.length ≤ 1) (hnostop : ∀ p ∈ ds, p.2 ≠ .stop) :
+    ∀ (seg : List Item) (i : Nat) (h : List Op) (pend : Option Nat) (st : Bool) (L : List Item) (h' : List Op),
+    walk hb ff ρ (.fixed ds) i h pend st seg = some (none, h') → (F hb ff h').Nodup →
+    (st = true → i = ds.length) → (pend.isSome → st = true) →
+    (∀ y, pend = some y → ρ = true ∧ y ∈ F hb ff h) →
+    (∀ y, y ∈ startsIn (ds.drop i) → ρ = true ∧ y ∈ F hb ff h) →
+    (∀ x, stOf x L = some (ρ && decide (x ∈ F hb ff h) && !(startsIn (ds.drop i)).contains x && (pend != some x))) →
+    ∀ x, stOf x (L ++ seg) = some (ρ && decide (x ∈ F hb ff h')) := by
+  intro seg
+  induction seg with
+  | nil =>
+    intro i h pend st L h' hw hn hst hps hp hds hinv x
+    cases pend with
+    | some y => obtain ⟨r, hs, _⟩ := walk_inv_some _ _ _ _ _ _ _ _ _ _ _ hw; simp at hs
+    | none =>
+      rcases walk_inv_none _ _ _ _ _ _ _ _ _ hw with ⟨_, hd, rfl⟩ | ⟨o, r, hs, _⟩ | ⟨y, ev, r, hs, _⟩
+      · simp only [allDone, beq_iff_eq] at hd
+        simpa [hd, pend_none, startsIn] using hinv x
+      · simp at hs
+      · simp at hs
+  | cons it seg ih =>
+    intro i h pend st L h' hw hn hst hps hp hds hinv x
+    cases pend with
+    | some y =>
+      obtain ⟨r, hs, hw'⟩ := walk_inv_some _ _ _ _ _ _ _ _ _ _ _ hw
+      obtain ⟨rfl, rfl⟩ := List.cons.inj hs
+      have hi := hst (hps rfl)
+      obtain ⟨hρ, hy⟩ := hp y rfl
+      have := ih i h none st (L ++ [.del y .start true]) h' hw' hn hst (by simp) (by simp) hds
+        (fun z => by
+          by_cases hz : z = y
+          · subst hz
+            rw [stOf_snoc_start z L true (by simpa [pend_self] using hinv z)]
+            simp [hρ, hy, hi, startsIn, pend_none]
+          · rw [stOf_snoc_other z L _ (ctlOf_del_ne z y _ _ (fun hh => hz hh.symm)), hinv z]
+            simp [pend_ne y z hz, pend_none]) x
+      simpa using this
+    | none =>
+      rcases walk_inv_none _ _ _ _ _ _ _ _ _ hw with ⟨hs, _⟩ | ⟨o, r, hs, hstt, hw'⟩ | ⟨y, ev, r, hs, hnt, hw'⟩
+      · simp at hs
+      · obtain ⟨rfl, rfl⟩ := List.cons.inj hs
+        have hi := hst hstt
+        obtain ⟨X, hX⟩ := walk_prefix _ _ _ _ _ _ _ _ _ _ _ hw'
+        have hnh : (F hb ff (h ++ effAdd o)).Nodup := by
+          rw [hX, F_append] at hn; exact (List.nodup_append.mp hn).1
+        rw [F_effAdd] at hnh
+        have hdrop : ds.drop i = [] := by rw [hi]; simp
+        have := ih i (h ++ effAdd o) (if ρ then flaggedSink o else none) st (L ++ [.radd o]) h' hw' hn hst (fun _ => hstt)
+          (fun y hy => by
+            cases hρ : ρ with
+            | false => simp [hρ] at hy
+            | true =>
+              simp only [hρ, if_true] at hy
+              rw [F_effAdd, hy]; simp)
+          (fun y hy => by simp [hdrop, startsIn] at hy)
+          (fun z => by
+            rw [stOf_snoc_other z L _ (by simp [ctlOf]), F_effAdd, hinv z]
+            simp only [hdrop, startsIn, List.filterMap_nil, List.contains_nil, Bool.not_false, Bool.and_true, pend_none]
+            cases hρ : ρ with
+            | false => simp
+            | true =>
+              cases hf : flaggedSink o with
+              | none => simp [pend_none]
+              | some y =>
+                rw [hf] at hnh
+                by_cases hz : z = y
+                · subst hz
+                  have : z ∉ F hb ff h := by
+                    intro hm
+                    exact (List.nodup_append.mp hnh).2.2 z hm z (by simp) rfl
+                  simp [this, pend_self]
+                · simp [hz, pend_ne y z hz]) x
+        simpa using this
+      · obtain ⟨rfl, rfl⟩ := List.cons.inj hs
+        simp only [nextTop] at hnt
+        have hi0 : i = 0 := by
+          have := (List.getElem?_eq_some_iff.mp hnt).1
+          omega
+        subst hi0
+        have hds1 : ds = [(y, ev)] := by
+          cases ds with
+          | nil => simp at hnt
+          | cons p rest =>
+            cases rest with
+            | nil => simp at hnt; rw [hnt]
+            | cons q r => simp at hlen
+        subst hds1
+        have := ih 1 h none true (L ++ [.del y ev false]) h' hw' hn (by simp) (by simp) (by simp)
+          (fun z hz => by simp [startsIn] at hz)
+          (fun z => by
+            cases ev with
+            | stop => exact absurd rfl (hnostop (y, .stop) (by simp))
+            | status e =>
+              rw [stOf_snoc_other z L _ (ctlOf_status z y e false), hinv z]
+              simp [startsIn, pend_none]
+            | start =>
+              obtain ⟨hρ, hy⟩ := hds y (by simp [startsIn])
+              by_cases hz : z = y
+              · subst hz
+                rw [stOf_snoc_start z L false (by simpa [startsIn, pend_none] using hinv z)]
+                simp [hρ, hy, startsIn, pend_none]
+              · rw [stOf_snoc_other z L _ (ctlOf_del_ne z y _ _ (fun hh => hz hh.symm)), hinv z]
+                simp [startsIn, hz, pend_none]) x
+        simpa using this
+
+theorem walk_inRun_any (hb ff ρ : Bool) (m : Mode) : ∀ (seg : List Item) (i : Nat) (h : List Op) (pend : Option Nat) (st : Bool)
+    (e : Option String) (h' : List Op), walk hb ff ρ m i h pend st seg = some (e, h') → inRun h' = inRun h := by
+  intro seg
+  induction seg with
+  | nil =>
+    intro i h pend st e h' hw
+    cases pend with
+    | some y => simp [walk] at hw
+    | none =>
+      simp only [walk] at hw
+      split at hw
+      · simp only [Option.some.injEq, Prod.mk.injEq] at hw; rw [hw.2]
+      · simp at hw
+  | cons it seg ih =>
+    intro i h pend st e h' hw
+    cases pend with
+    | some y =>
+      obtain ⟨r, hs, hw'⟩ := walk_inv_some _ _ _ _ _ _ _ _ _ _ _ hw
+      obtain ⟨rfl, rfl⟩ := List.cons.inj hs
+      exact ih _ _ _ _ _ _ hw'
+    | none =>
+      cases it with
+      | exc x =>
+        cases seg with
+        | nil =>
+          simp only [walk] at hw
+          split at hw
+          · simp only [Option.some.injEq, Prod.mk.injEq] at hw; rw [hw.2]
+          · simp at hw
+        | cons a b => simp [walk] at hw
+      | radd o =>
+        simp only [walk] at hw
+        split at hw
+        · rw [ih _ _ _ _ _ _ hw, inRun_effAdd]
+        · simp at hw
+      | del x ev n =>
+        cases n with
+        | true => simp [walk] at hw
+        | false =>
+          simp only [walk] at hw
+          split at hw
+          · exact ih _ _ _ _ _ _ hw
+          · simp at hw
+
+theorem walk_inRun (hb ff ρ : Bool) (m : Mode) : ∀ (seg : List Item) (i : Nat) (h : List Op) (pend : Option Nat) (st : Bool)
+    (h' : List Op), walk hb ff ρ m i h pend st seg = some (none, h') → inRun h' = inRun h := by
+  intro seg
+  induction seg with
+  | nil =>
+    intro i h pend st h' hw
+    cases pend with
+    | some y => obtain ⟨r, hs, _⟩ := walk_inv_some _ _ _ _ _ _ _ _ _ _ _ hw; simp at hs
+    | none =>
+      rcases walk_inv_none _ _ _ _ _ _ _ _ _ hw with ⟨_, _, rfl⟩ | ⟨o, r, hs, _⟩ | ⟨y, ev, r, hs, _⟩
+      · rfl
+      · simp at hs
+      · simp at hs
+  | cons it seg ih =>
+    intro i h pend st h' hw
+    cases pend with
+    | some y =>
+      obtain ⟨r, hs, hw'⟩ := walk_inv_some _ _ _ _ _ _ _ _ _ _ _ hw
+      obtain ⟨rfl, rfl⟩ := List.cons.inj hs
+      exact ih _ _ _ _ _ hw'
+    | none =>
+      rcases walk_inv_none _ _ _ _ _ _ _ _ _ hw with ⟨hs, _⟩ | ⟨o, r, hs, _, hw'⟩ | ⟨y, ev, r, hs, _, hw'⟩
+      · simp at hs
+      · obtain ⟨rfl, rfl⟩ := List.cons.inj hs
+        rw [ih _ _ _ _ _ hw', inRun_effAdd]
+      · obtain ⟨rfl, rfl⟩ := List.cons.inj hs
+        exact ih _ _ _ _ _ hw'
+
+/-- every sink is running iff a run is in progress and it is registered -/
+def Q (hb ff : Bool) (H : List Op) (L : List Item) : Prop :=
+  ∀ x, stOf x L = some (inRun H && decide (x ∈ F hb ff H))
+
+theorem closes_noexc (hb ff ρ : Bool) (m : Mode) (i : Nat) (h : List Op) (seg : List Item) (res : Res) (comp H' : List Op)
+    (hc : closes res (walk hb ff ρ m i h none false seg) comp = some H') (hexc : hasExc seg = false) :
+    ∃ h', walk hb ff ρ m i h none false seg = some (none, h') ∧ H' = h' ++ comp := by
+  cases hw : walk hb ff ρ m i h none false seg with
+  | none => simp [closes, hw] at hc
+  | some p =>
+    obtain ⟨e, h'⟩ := p
+    cases e with
+    | some x => have := walk_exc _ _ _ _ _ _ _ _ _ _ _ hw; simp [hexc] at this
+    | none =>
+      simp only [closes, hw] at hc
+      split at hc
+      · simp only [Option.some.injEq] at hc; exact ⟨h', rfl, hc.symm⟩
+      · simp at hc
+
+theorem inRun_add (H : List Op) (o : Op) (r : Reg) (h : regOf o = some r) : inRun (H ++ [o]) = inRun H := by
+  have := inRun_effAdd H o
+  simpa [effAdd, h] using this
+
+/-- whether a run is in progress after an operation that returned normally -/
+def runAfter (o : Op) (r : Bool) : Bool :=
+  match o with
+  | .start => true
+  | .stop => false
+  | _ => r
+
+theorem add_alt (hb ff : Bool) (H : List Op) (o : Op) (seg : List Item) (res : Res) (H' : List Op) (L : List Item)
+    (r : Reg) (hreg : regOf o = some r) (hop : addOk hb ff H o seg res = some H') (hexc : hasExc seg = false)
+    (hn : (F hb ff H').Nodup) (hQ : Q hb ff H L) :
+    Q hb ff H' (L ++ seg) ∧ inRun H' = runAfter o (inRun H) := by
+  have hadd : inRun (H ++ [o]) = inRun H := inRun_add H o r hreg
+  have hmatch : runAfter o (inRun H) = inRun H := by
+    cases o <;> simp [regOf] at hreg <;> rfl
+  rw [hmatch]
+  simp only [addOk] at hop
+  obtain ⟨h', hw, rfl⟩ := closes_noexc _ _ _ _ _ _ _ _ _ _ hop hexc
+  simp only [List.append_nil] at hn ⊢
+  have hir := (walk_inRun _ _ _ _ _ _ _ _ _ _ hw).trans hadd
+  refine ⟨fun x => ?_, hir⟩
+  obtain ⟨X, hX⟩ := walk_prefix _ _ _ _ _ _ _ _ _ _ _ hw
+  have hFo : F hb ff (H ++ [o]) = F hb ff H ++ (flaggedSink o).toList := by
+    have := F_effAdd hb ff H o
+    simpa [effAdd, hreg] using this
+  have hnh : (F hb ff H ++ (flaggedSink o).toList).Nodup := by
+    rw [hX, F_append, hFo] at hn; exact (List.nodup_append.mp hn).1
+  have := walk_alt_fixed hb ff (inRun H)
+    (match flaggedSink o with | some y => if inRun H then [(y, .start)] else [] | none => [])
+    (by cases flaggedSink o <;> simp <;> split <;> simp)
+    (by
+      intro p hp
+      cases hf : flaggedSink o with
+      | none => simp [hf] at hp
+      | some y =>
+        simp only [hf] at hp
+        split at hp
+        · simp only [List.mem_singleton] at hp; subst hp; simp
+        · simp at hp)
+    seg 0 (H ++ [o]) none false L h' hw hn (by simp) (by simp) (by simp)
+    (by
+      intro y hy
+      cases hf : flaggedSink o with
+      | none => simp [hf, startsIn] at hy
+      | some z =>
+        simp only [hf, List.drop_zero] at hy
+        cases hr : inRun H with
+        | false => simp [hr, startsIn] at hy
+        | true =>
+          simp only [hr, if_true, startsIn, List.filterMap_cons, List.filterMap_nil, List.mem_singleton] at hy
+          subst hy
+          exact ⟨rfl, by rw [hFo, hf]; simp⟩)
+    (fun z => by
+      rw [hQ z, hFo]
+      cases hr : inRun H with
+      | false => simp
+      | true =>
+        cases hf : flaggedSink o with
+        | none => simp [startsIn, pend_none]
+        | some y =>
+          rw [hf] at hnh
+          simp only [if_true, List.drop_zero, startsIn, List.filterMap_cons, List.filterMap_nil, pend_none,
+            Option.toList_some, Bool.true_and, Bool.and_true]
+          by_cases hz : z = y
+          · subst hz
+            have : z ∉ F hb ff H := by
+              intro hm
+              exact (List.nodup_append.mp hnh).2.2 z hm z (by simp) rfl
+            simp [this]
+          · simp [hz]) x
+  rw [this, hir]
+
+/-- one operation (no exception, runs not nested, nobody registered twice) keeps every sink's start/stop sequence
+legal and the running sinks = the registered sinks while a run is in progress -/
+theorem op_alt (hb ff : Bool) (H : List Op) (o : Op) (seg : List Item) (res : Res) (H' : List Op) (L : List Item)
+    (hop : opOk hb ff H o seg res = some H') (hexc : hasExc seg = false) (hn : (F hb ff H').Nodup)
+    (hwf : (o = .start → inRun H = false) ∧ (o = .stop → inRun H = true)) (hQ : Q hb ff H L) :
+    Q hb ff H' (L ++ seg)
+      ∧ inRun H' = runAfter o (inRun H) := by
+  cases o with
+  | start =>
+    simp only [opOk] at hop
+    obtain ⟨h', hw, rfl⟩ := closes_noexc _ _ _ _ _ _ _ _ _ _ hop hexc
+    have hr := hwf.1 rfl
+    rw [hr] at hw
+    rw [F_ctl hb ff h' .start (Or.inl rfl)] at hn
+    refine ⟨fun x => ?_, by simp [inRun_snoc, runAfter]⟩
+    have := walk_alt_start hb ff seg 0 H false L h' hw hn (Nat.zero_le _) (fun z => by simpa [hr] using hQ z) x
+    simpa [inRun_snoc, F_ctl hb ff h' .start (Or.inl rfl)] using this
+  | stop =>
+    simp only [opOk] at hop
+    obtain ⟨h', hw, rfl⟩ := closes_noexc _ _ _ _ _ _ _ _ _ _ hop hexc
+    have hr := hwf.2 rfl
+    rw [hr] at hw
+    rw [F_ctl hb ff h' .stop (Or.inr rfl)] at hn
+    refine ⟨fun x => ?_, by simp [inRun_snoc, runAfter]⟩
+    have := walk_alt_stop hb ff seg 0 H none false L h' hw hn (Nat.zero_le _) (by simp)
+      (fun z => by simpa [hr, pend_none] using hQ z) x
+    simpa [inRun_snoc] using this
+  | status e =>
+    simp only [opOk] at hop
+    cases hd : destination hb (regs H) e with
+    | none =>
+      simp only [hd] at hop
+      split at hop
+      · rename_i hc
+        simp only [Bool.and_eq_true, List.isEmpty_iff] at hc
+        simp only [Option.some.injEq] at hop
+        subst hop
+        exact ⟨by simpa [hc.1] using hQ, rfl⟩
+      · simp at hop
+    | some d =>
+      obtain ⟨sink, e'⟩ := d
+      simp only [hd] at hop
+      obtain ⟨h', hw, rfl⟩ := closes_noexc _ _ _ _ _ _ _ _ _ _ hop hexc
+      simp only [List.append_nil] at hn ⊢
+      have hir := walk_inRun _ _ _ _ _ _ _ _ _ _ hw
+      refine ⟨fun x => ?_, hir⟩
+      have := walk_alt_fixed hb ff (inRun H) [(sink, .status e')] (by simp) (by simp) seg 0 H none false L h' hw hn
+        (by simp) (by simp) (by simp) (by simp [startsIn])
+        (fun z => by simpa [startsIn, pend_none] using hQ z) x
+      rw [this, hir]
+  | roundTrip codes e =>
+    simp only [opOk] at hop
+    split at hop
+    · rename_i hc
+      simp only [Bool.and_eq_true, List.isEmpty_iff] at hc
+      simp only [Option.some.injEq] at hop
+      subst hop
+      exact ⟨by simpa [hc.1] using hQ, rfl⟩
+    · simp at hop
+  | addBad sink flag =>
+    simp only [opOk, regOf] at hop
+    split at hop
+    · rename_i hc
+      simp only [Bool.and_eq_true, List.isEmpty_iff] at hc
+      simp only [Option.some.injEq] at hop
+      subst hop
+      exact ⟨by simpa [hc.1] using hQ, rfl⟩
+    · simp at hop
+  | addPrefix sink p consume flag =>
+    cases hreg : regOf (.addPrefix sink p consume flag) with
+    | none =>
+      simp only [opOk, hreg] at hop
+      split at hop
+      · rename_i hc
+        simp only [Bool.and_eq_true, List.isEmpty_iff] at hc
+        simp only [Option.some.injEq] at hop
+        subst hop
+        exact ⟨by simpa [hc.1] using hQ, rfl⟩
+      · simp at hop
+    | some r => exact add_alt hb ff H _ seg res H' L r hreg (by simpa [opOk, hreg] using hop) hexc hn hQ
+  | addId sink t flag =>
+    have hreg : regOf (.addId sink t flag) = some (.tid sink t flag) := by simp [regOf]
+    exact add_alt hb ff H _ seg res H' L _ hreg (by simpa [opOk, hreg] using hop) hexc hn hQ
+
+theorem closes_prefix (hb ff ρ : Bool) (m : Mode) (i : Nat) (h : List Op) (seg : List Item) (res : Res) (comp H' : List Op)
+    (hc : closes res (walk hb ff ρ m i h none false seg) comp = some H') : ∃ X, H' = h ++ X := by
+  cases hw : walk hb ff ρ m i h none false seg with
+  | none => simp [closes, hw] at hc
+  | some p =>
+    obtain ⟨e, h'⟩ := p
+    obtain ⟨X, hX⟩ := walk_prefix _ _ _ _ _ _ _ _ _ _ _ hw
+    cases e with
+    | some x =>
+      simp only [closes, hw] at hc
+      split at hc
+      · simp only [Option.some.injEq] at hc; exact ⟨X, by rw [← hc, hX]⟩
+      · simp at hc
+    | none =>
+      simp only [closes, hw] at hc
+      split at hc
+      · simp only [Option.some.injEq] at hc; exact ⟨X ++ comp, by rw [← hc, hX, List.append_assoc]⟩
+      · simp at hc
+
+theorem opOk_prefix (hb ff : Bool) (H : List Op) (o : Op) (seg : List Item) (res : Res) (H' : List Op)
+    (hop : opOk hb ff H o seg res = some H') : ∃ X, H' = H ++ X := by
+  have hsame : ∀ {c : Bool}, (if c then some H else none) = some H' → ∃ X, H' = H ++ X := by
+    intro c hh; split at hh
+    · simp only [Option.some.injEq] at hh; exact ⟨[], by simp [hh]⟩
+    · simp at hh
+  cases o with
+  | start => exact closes_prefix _ _ _ _ _ _ _ _ _ _ (by simpa [opOk] using hop)
+  | stop => exact closes_prefix _ _ _ _ _ _ _ _ _ _ (by simpa [opOk] using hop)
+  | status e =>
+    simp only [opOk] at hop
+    cases hd : destination hb (regs H) e with
+    | none => simp only [hd] at hop; exact hsame hop
+    | some d => obtain ⟨sink, e'⟩ := d; simp only [hd] at hop; exact closes_prefix _ _ _ _ _ _ _ _ _ _ hop
+  | roundTrip codes e => simp only [opOk] at hop; exact hsame hop
+  | addBad sink flag => simp only [opOk, regOf] at hop; exact hsame hop
+  | addPrefix sink p consume flag =>
+    simp only [opOk] at hop
+    cases hreg : regOf (.addPrefix sink p consume flag) with
+    | none => simp only [hreg] at hop; exact hsame hop
+    | some r =>
+      simp only [hreg, addOk] at hop
+      obtain ⟨X, hX⟩ := closes_prefix _ _ _ _ _ _ _ _ _ _ hop
+      exact ⟨.addPrefix sink p consume flag :: X, by rw [hX]; simp⟩
+  | addId sink t flag =>
+    simp only [opOk, regOf, addOk] at hop
+    obtain ⟨X, hX⟩ := closes_prefix _ _ _ _ _ _ _ _ _ _ hop
+    exact ⟨.addId sink t flag :: X, by rw [hX]; simp⟩
+
+theorem finalHist_prefix (hb ff : Bool) : ∀ (os : List Op) (H : List Op) (segs : List (List Item)) (rs : List Res) (Hf : List Op),
+    finalHist hb ff H os segs rs = some Hf → ∃ X, Hf = H ++ X
+  | [], H, segs, rs, Hf, h => by
+      cases segs <;> cases rs <;> simp [finalHist] at h
+      exact ⟨[], by simp [h]⟩
+  | o :: os, H, segs, rs, Hf, h => by
+      cases segs with
+      | nil => simp [finalHist] at h
+      | cons seg segs =>
+        cases rs with
+        | nil => simp [finalHist] at h
+        | cons r rs =>
+          simp only [finalHist] at h
+          cases hop : opOk hb ff H o seg r with
+          | none => simp [hop] at h
+          | some H' =>
+            simp only [hop] at h
+            obtain ⟨X, hX⟩ := opOk_prefix hb ff H o seg r H' hop
+            obtain ⟨Y, hY⟩ := finalHist_prefix hb ff os H' segs rs Hf h
+            exact ⟨X ++ Y, by rw [hY, hX, List.append_assoc]⟩
+
+theorem hist_alt (hb ff : Bool) : ∀ (os : List Op) (H : List Op) (segs : List (List Item)) (rs : List Res) (L : List Item)
+    (Hf : List Op), finalHist hb ff H os segs rs = some Hf → segs.any hasExc = false →
+    runsWellFormed (inRun H) os = true → (F hb ff Hf).Nodup → Q hb ff H L → Q hb ff Hf (L ++ segs.flatten)
+  | [], H, segs, rs, L, Hf, h, _, _, _, hQ => by
+      cases segs <;> cases rs <;> simp [finalHist] at h
+      subst h; simpa using hQ
+  | o :: os, H, segs, rs, L, Hf, h, hexc, hwf, hn, hQ => by
+      cases segs with
+      | nil => simp [finalHist] at h
+      | cons seg segs =>
+        cases rs with
+        | nil => simp [finalHist] at h
+        | cons r rs =>
+          simp only [finalHist] at h
+          cases hop : opOk hb ff H o seg r with
+          | none => simp [hop] at h
+          | some H' =>
+            simp only [hop] at h
+            simp only [List.any_cons, Bool.or_eq_false_iff] at hexc
+            obtain ⟨Y, hY⟩ := finalHist_prefix hb ff os H' segs rs Hf h
+            have hn' : (F hb ff H').Nodup := by
+              rw [hY, F_append] at hn; exact (List.nodup_append.mp hn).1
+            have hwfo : (o = .start → inRun H = false) ∧ (o = .stop → inRun H = true) := by
+              constructor
+              · intro ho; subst ho
+                simp only [runsWellFormed, Bool.and_eq_true, Bool.not_eq_true'] at hwf; exact hwf.1
+              · intro ho; subst ho
+                simp only [runsWellFormed, Bool.and_eq_true] at hwf; exact hwf.1
+            obtain ⟨hQ', hrun⟩ := op_alt hb ff H o seg r H' L hop hexc.1 hn' hwfo hQ
+            have hwf' : runsWellFormed (inRun H') os = true := by
+              rw [hrun]
+              cases o <;> simp_all [runsWellFormed, runAfter]
+            have := hist_alt hb ff os H' segs rs (L ++ seg) Hf h hexc.2 hwf' hn hQ'
+            simpa [List.append_assoc] using this
+
+/-- **C18 (alternation)**: in *any* observed history that passes the reading of the property (`historyOk`) and in
+which no sink raises, runs do not nest and no sink is registered twice for start/stop, every sink sees
+`startTestRun` and `stopTestRun` strictly alternating, beginning with a start — so at most one start per run, never a
+second start without a stop in between (also for a sink registered re-entrantly while the start dispatch is under
+way), never a stop without a start; and at the end of every operation the running sinks are exactly the registered
+ones if a run is in progress, none otherwise. -/
+theorem C18_alternate (i : Input) (t : Trace) : cAlternate i t = true := by
+  simp only [cAlternate, Bool.or_eq_true, Bool.not_eq_true']
+  by_cases hc : clean i t = true
+  · right
+    simp only [clean, Bool.and_eq_true, Bool.not_eq_true'] at hc
+    obtain ⟨⟨hexc, hwf⟩, hfin⟩ := hc
+    cases hf : finalHist i.hasFallback i.fbFlag [] i.ops t.segments t.results with
+    | none => simp [hf] at hfin
+    | some Hf =>
+      simp only [hf, decide_eq_true_eq] at hfin
+      have hQ0 : Q i.hasFallback i.fbFlag [] [] := by
+        intro x; simp [stOf, ctlOf, auto, inRun]
+      have := hist_alt i.hasFallback i.fbFlag i.ops [] t.segments t.results [] Hf hf hexc (by simpa [inRun] using hwf) hfin hQ0
+      simp only [List.all_eq_true]
+      intro x _
+      rw [alternates_iff]
+      have hx := this x
+      simp only [List.nil_append, stOf] at hx
+      simp [hx]
+  · left; simpa using hc
 
 /-! ## headline -/
 theorem holds_model (i : Input) : holds i (model i) = true := by
-  have hd := run_deliveries i.hasFallback i.fbFlag i.ops [] _ (inv_init i.hasFallback i.fbFlag)
   simp only [holds, clauses, List.all_cons, List.all_nil, Bool.and_true, Bool.and_eq_true]
-  refine ⟨?_, ?_, ?_⟩
-  · simp [cOneSink, model, hd.1]
-  · simp [cStartStop, model, hd.2]
-  · simp only [cResults, model]
-    exact run_results i.hasFallback i.fbFlag i.ops [] _ (inv_init i.hasFallback i.fbFlag)
+  exact ⟨C18_history i, C18_alternate i (model i)⟩
 
-
-/-! ## readable statements -/
-/-- **C18 (one sink)**: over every script of operations, the status calls received by all sinks together are, in
-order, exactly one per routable `status` — delivered to the sink `destination` names, looking only at the rules
-registered before it — and none for an event without destination (that call raises, `C18_raises`). -/
-theorem C18_one_sink (i : Input) :
-    (model i).deliveries.filter (fun d => isStatus d.2) = overHistory (expectStatus i.hasFallback) [] i.ops :=
-  (run_deliveries i.hasFallback i.fbFlag i.ops [] _ (inv_init i.hasFallback i.fbFlag)).1
-
-/-- at most one delivery per status call; none exactly when there is no destination -/
-theorem C18_at_most_one (hb : Bool) (hist : List Op) (e : Event) :
-    (expectStatus hb hist (.status e)).length = if (destination hb (regs hist) e).isSome then 1 else 0 := by
-  simp only [expectStatus]
-  cases destination hb (regs hist) e <;> rfl
-
+/-! ## readable statements: the routing decision -/
 /-- **C18 (precedence)**: the rule of the first segment of the route code if there is one … -/
 theorem C18_route_rule_first (hb : Bool) (rs : List Reg) (e : Event) (rc : Str) (sink : Nat) (consume : Bool)
     (hr : e.route = some rc) (hp : prefixRule rs (segments rc).1 = some (sink, consume)) :
@@ -447,49 +1481,223 @@ theorem C18_segments (rc : Str) :
       simp only [segments, h, if_false, List.cons_append, List.cons.injEq, true_and]
       exact ih2
 
-/-- **C18 (raises)**: a status call raises exactly when there is no destination, and then nothing is delivered. -/
-theorem C18_raises (hb ff : Bool) (hist : List Op) (s : State) (hI : Inv hb ff hist s) (e : Event) :
-    ((step s (.status e)).2.2 = .raised "AttributeError" ↔ destination hb (regs hist) e = none)
-    ∧ (destination hb (regs hist) e = none → (step s (.status e)).2.1 = []) := by
-  simp only [step, route_eq hb ff hist s hI e]
-  cases destination hb (regs hist) e <;> simp
 
-/-- **C18 (start/stop)**: the `startTestRun`/`stopTestRun` calls received by all sinks together are, in order: for
-each `startTestRun` (`stopTestRun`) of the router one call on each sink registered so far with
-`do_start_stop_run` (the fallback per its own flag), in registration order; for each rule added with the flag while
-a run is in progress one immediate `startTestRun` on its sink; nothing else — in particular nothing for a rule added
-without the flag, whenever it is added. -/
-theorem C18_start_stop (i : Input) :
-    (model i).deliveries.filter (fun d => !isStatus d.2) = overHistory (expectCtl i.hasFallback i.fbFlag) [] i.ops :=
-  (run_deliveries i.hasFallback i.fbFlag i.ops [] _ (inv_init i.hasFallback i.fbFlag)).2
+/-! ## readable statements: the dispatch of startTestRun / stopTestRun -/
+/-- the calls the router itself makes (not those made from inside a sink's method) -/
+def topCalls : List Item → List (Nat × SinkEv)
+  | [] => []
+  | .del x ev false :: r => (x, ev) :: topCalls r
+  | _ :: r => topCalls r
 
-theorem C18_midrun_rule (hb ff : Bool) (hist : List Op) (sink : Nat) (t : Option Nat) :
-    expectCtl hb ff hist (.addId sink t true) = (if inRun hist then [(sink, .start)] else [])
-    ∧ expectCtl hb ff hist (.addId sink t false) = [] := by
-  simp [expectCtl, regOf]
+/-- the calls made from inside a sink's method (immediate starts of re-entrantly added rules) -/
+def nestedCalls : List Item → List (Nat × SinkEv)
+  | [] => []
+  | .del x ev true :: r => (x, ev) :: nestedCalls r
+  | _ :: r => nestedCalls r
 
-/-- a sink registered with the flag (and not the fallback) is stopped by the next `stopTestRun` once per registration -/
-theorem C18_registered_stopped (hb ff : Bool) (hist : List Op) (sink : Nat) (t : Option Nat) :
-    (sink, SinkEv.stop) ∈ expectCtl hb ff (hist ++ [.addId sink t true]) .stop := by
-  simp [expectCtl, regs_snoc, regOf, flagged_snoc]
+theorem F_getElem_prefix (hb ff : Bool) (h X : List Op) (i : Nat) (x : Nat) (hx : (F hb ff h)[i]? = some x) :
+    (F hb ff (h ++ X))[i]? = some x := by
+  rw [F_append, List.getElem?_append_left (List.getElem?_eq_some_iff.mp hx).1]; exact hx
+
+/-- a dispatch walked through: the router called exactly the sinks registered at the end, from position `i` on,
+in order, each once — up to the one that raised, if one did -/
+theorem walk_tops (hb ff ρ : Bool) (ev : SinkEv) : ∀ (seg : List Item) (i : Nat) (h : List Op) (pend : Option Nat) (st : Bool)
+    (e : Option String) (h' : List Op), walk hb ff ρ (.ctl ev) i h pend st seg = some (e, h') → i ≤ (F hb ff h).length →
+    ∃ k, topCalls seg = (((F hb ff h').drop i).take k).map (·, ev) ∧ (e = none → i + k = (F hb ff h').length)
+      ∧ i + k ≤ (F hb ff h').length := by
+  intro seg
+  induction seg with
+  | nil =>
+    intro i h pend st e h' hw hi
+    cases pend with
+    | some y => simp [walk] at hw
+    | none =>
+      simp only [walk] at hw
+      split at hw
+      · rename_i hd
+        simp only [Option.some.injEq, Prod.mk.injEq] at hw
+        obtain ⟨rfl, rfl⟩ := hw
+        simp only [allDone, beq_iff_eq] at hd
+        exact ⟨0, by simp [topCalls], fun _ => by simpa using hd, by simpa using hi⟩
+      · simp at hw
+  | cons it seg ih =>
+    intro i h pend st e h' hw hi
+    cases pend with
+    | some y =>
+      obtain ⟨r, hs, hw'⟩ := walk_inv_some _ _ _ _ _ _ _ _ _ _ _ hw
+      obtain ⟨rfl, rfl⟩ := List.cons.inj hs
+      obtain ⟨k, h1, h2, h3⟩ := ih _ _ _ _ _ _ hw' hi
+      exact ⟨k, by simpa [topCalls] using h1, h2, h3⟩
+    | none =>
+      cases it with
+      | exc x =>
+        cases seg with
+        | nil =>
+          simp only [walk] at hw
+          split at hw
+          · simp only [Option.some.injEq, Prod.mk.injEq] at hw
+            obtain ⟨rfl, rfl⟩ := hw
+            exact ⟨0, by simp [topCalls], by simp, by simpa using hi⟩
+          · simp at hw
+        | cons a b => simp [walk] at hw
+      | radd o =>
+        simp only [walk] at hw
+        split at hw
+        · obtain ⟨k, h1, h2, h3⟩ := ih _ _ _ _ _ _ hw (by rw [F_effAdd]; simp only [List.length_append]; omega)
+          exact ⟨k, by simpa [topCalls] using h1, h2, h3⟩
+        · simp at hw
+      | del x ev' n =>
+        cases n with
+        | true => simp [walk] at hw
+        | false =>
+          simp only [walk] at hw
+          split at hw
+          · rename_i hn
+            simp only [nextTop, Option.map_eq_some_iff, Prod.mk.injEq] at hn
+            obtain ⟨x', hx, rfl, rfl⟩ := hn
+            obtain ⟨X, hX⟩ := walk_prefix _ _ _ _ _ _ _ _ _ _ _ hw
+            have hx' := F_getElem_prefix hb ff h X i x' hx
+            rw [← hX] at hx'
+            obtain ⟨k, h1, h2, h3⟩ := ih _ _ _ _ _ _ hw (List.getElem?_eq_some_iff.mp hx).1
+            obtain ⟨hlt, hxe⟩ := List.getElem?_eq_some_iff.mp hx'
+            refine ⟨k + 1, ?_, fun he => by have := h2 he; omega, by omega⟩
+            simp only [topCalls, h1]
+            rw [List.drop_eq_getElem_cons hlt, List.take_succ_cons, List.map_cons, hxe]
+          · simp at hw
+
+/-- with no run in progress nothing is started from inside a sink's method -/
+theorem walk_no_nested (hb ff : Bool) (m : Mode) : ∀ (seg : List Item) (i : Nat) (h : List Op) (st : Bool)
+    (e : Option String) (h' : List Op), walk hb ff false m i h none st seg = some (e, h') → nestedCalls seg = [] := by
+  intro seg
+  induction seg with
+  | nil => intros; rfl
+  | cons it seg ih =>
+    intro i h st e h' hw
+    cases it with
+    | exc x => cases seg with
+      | nil => rfl
+      | cons a b => simp [walk] at hw
+    | radd o =>
+      simp only [walk] at hw
+      split at hw
+      · simpa [nestedCalls] using ih _ _ _ _ _ hw
+      · simp at hw
+    | del x ev n =>
+      cases n with
+      | true => simp [walk] at hw
+      | false =>
+        simp only [walk] at hw
+        split at hw
+        · simpa [nestedCalls] using ih _ _ _ _ _ hw
+        · simp at hw
+
+theorem dispatch_aux (hb ff : Bool) (H : List Op) (s : State) (hI : Inv hb ff H s) (o : Op) (ev : SinkEv)
+    (hoc : o = .start ∨ o = .stop)
+    (hdef : ∀ seg res, opOk hb ff H o seg res = closes res (walk hb ff (inRun H) (.ctl ev) 0 H none false seg) [o]) :
+    ((step s o).2.2 = .ok →
+        topCalls (step s o).2.1 = (step s o).1.sinks.map (·, ev) ∧ (step s o).1.inRun = (decide (o = .start)))
+    ∧ (∀ x, (step s o).2.2 = .raised x →
+        (∃ k, topCalls (step s o).2.1 = ((step s o).1.sinks.take k).map (·, ev)) ∧ (step s o).1.inRun = s.inRun)
+    ∧ (s.inRun = false → nestedCalls (step s o).2.1 = []) := by
+  obtain ⟨H', hop, hI'⟩ := step_ok hb ff H s hI o
+  have hsinks := hI'.sinks
+  rw [hdef] at hop
+  cases hw : walk hb ff (inRun H) (.ctl ev) 0 H none false (step s o).2.1 with
+  | none => simp [closes, hw] at hop
+  | some p =>
+    obtain ⟨e, h'⟩ := p
+    obtain ⟨k, h1, h2, h3⟩ := walk_tops _ _ _ _ _ _ _ _ _ _ _ hw (Nat.zero_le _)
+    simp only [List.drop_zero, Nat.zero_add] at h1 h2 h3
+    have hnn : s.inRun = false → nestedCalls (step s o).2.1 = [] := by
+      intro hr; rw [← hI.inRun, hr] at hw; exact walk_no_nested _ _ _ _ _ _ _ _ _ hw
+    cases e with
+    | none =>
+      simp only [closes, hw] at hop
+      split at hop
+      · rename_i hres
+        simp only [Option.some.injEq] at hop
+        subst hop
+        simp only [beq_iff_eq] at hres
+        have hF : F hb ff (h' ++ [o]) = F hb ff h' := F_ctl hb ff h' o hoc
+        refine ⟨fun _ => ⟨?_, ?_⟩, fun x hx => by simp [hres] at hx, hnn⟩
+        · rw [h1, hsinks]
+          show _ = (F hb ff (h' ++ [o])).map _
+          rw [hF, List.take_of_length_le (by have := h2 rfl; omega)]
+        · rw [hI'.inRun]
+          rcases hoc with rfl | rfl <;> simp [inRun_snoc]
+      · simp at hop
+    | some x =>
+      simp only [closes, hw] at hop
+      split at hop
+      · rename_i hres
+        simp only [Option.some.injEq] at hop
+        subst hop
+        simp only [beq_iff_eq] at hres
+        refine ⟨fun hok => by simp [hres] at hok, fun y _ => ⟨⟨k, by rw [h1, hsinks]⟩, ?_⟩, hnn⟩
+        rw [hI'.inRun, hI.inRun]
+        exact walk_inRun_any _ _ _ _ _ _ _ _ _ _ _ hw
+      · simp at hop
+
+/-- **C18 (start/stop dispatch, exactly once)**: in every reachable state, `startTestRun` (`stopTestRun`) of the router
+calls — itself, i.e. not counting calls made from inside a sink's method — exactly the sinks that are registered for
+start/stop when it returns, in registration order, each **once**: the sinks registered before the call and the sinks
+registered re-entrantly while the dispatch is under way alike; only then is the run marked in progress (finished).
+If a sink raises, the dispatch ends there: the sinks called are a prefix (up to and including the raiser) of the
+registered ones, the later ones are **not** called, the exception reaches the driver, and the router's notion of
+"run in progress" is unchanged. -/
+theorem C18_dispatch_exactly_once (hb ff : Bool) (H : List Op) (s : State) (hI : Inv hb ff H s) :
+    (((step s .start).2.2 = .ok →
+        topCalls (step s .start).2.1 = (step s .start).1.sinks.map (·, .start) ∧ (step s .start).1.inRun = true)
+      ∧ (∀ x, (step s .start).2.2 = .raised x →
+          (∃ k, topCalls (step s .start).2.1 = ((step s .start).1.sinks.take k).map (·, .start))
+            ∧ (step s .start).1.inRun = s.inRun)
+      ∧ (s.inRun = false → nestedCalls (step s .start).2.1 = []))
+    ∧ (((step s .stop).2.2 = .ok →
+        topCalls (step s .stop).2.1 = (step s .stop).1.sinks.map (·, .stop) ∧ (step s .stop).1.inRun = false)
+      ∧ (∀ x, (step s .stop).2.2 = .raised x →
+          (∃ k, topCalls (step s .stop).2.1 = ((step s .stop).1.sinks.take k).map (·, .stop))
+            ∧ (step s .stop).1.inRun = s.inRun)) := by
+  have h1 := dispatch_aux hb ff H s hI .start .start (Or.inl rfl) (fun _ _ => rfl)
+  have h2 := dispatch_aux hb ff H s hI .stop .stop (Or.inr rfl) (fun _ _ => rfl)
+  refine ⟨⟨fun hk => by simpa using h1.1 hk, h1.2.1, h1.2.2⟩, fun hk => by simpa using h2.1 hk, h2.2.1⟩
+
+/-- sinks already registered keep their place: the dispatch list only grows at the end -/
+theorem C18_sinks_grow (hb ff : Bool) (H : List Op) (s : State) (hI : Inv hb ff H s) (o : Op) :
+    ∃ X, (step s o).1.sinks = s.sinks ++ X := by
+  obtain ⟨H', hop, hI'⟩ := step_ok hb ff H s hI o
+  obtain ⟨X, hX⟩ := opOk_prefix hb ff H o _ _ H' hop
+  exact ⟨X.filterMap flaggedSink, by rw [hI'.sinks, hI.sinks, hX]; exact F_append hb ff H X⟩
 
 /-! ## non-vacuity -/
 private def ev1 (tid : Option Nat) (rc : Option String) : Event :=
   { testId := tid, status := some .success, tags := none, runnable := true, fileName := none, fileBytes := none,
     eof := false, mime := none, route := rc.map String.toList, timestamp := none }
 
-/-- route rule beats id rule beats fallback; re-registration; consuming strips exactly one segment -/
-example : (model { hasFallback := true, fbFlag := true, ops :=
-      [.addId 1 (some 0) false, .addPrefix 2 ['0'] false false, .addPrefix 3 ['0'] true true, .start,
-       .status (ev1 (some 0) (some "0/ab/1")), .status (ev1 (some 0) (some "1")), .status (ev1 (some 5) none),
-       .addId 4 none false, .stop] }).deliveries =
-    [(0, .start), (3, .start), (3, .status (ev1 (some 0) (some "ab/1"))), (1, .status (ev1 (some 0) (some "1"))),
-     (0, .status (ev1 (some 5) none)), (0, .stop), (3, .stop)] := by decide
-example : (model { hasFallback := false, fbFlag := true, ops := [.status (ev1 (some 0) none)] }).results
-    = [.raised "AttributeError"] := by decide
+/-- the seeded shape: the fallback registers a worker (with the flag) from inside its own `startTestRun`; the worker is
+reached by the same dispatch — once — and stopped once; a second lazy registration at `stopTestRun` (run in progress) is
+started at once and then stopped by the same dispatch -/
+example : (model { hasFallback := true, fbFlag := true
+                   ops := [.start, .status (ev1 (some 0) (some "w/a")), .stop]
+                   scripts := [{ sink := 0, kind := .start, entries := [[.add (.addPrefix 1 ['w'] true true)]] },
+                               { sink := 1, kind := .stop, entries := [[.add (.addId 2 (some 0) true)]] }] }).segments =
+    [ [.del 0 .start false, .radd (.addPrefix 1 ['w'] true true), .del 1 .start false],
+      [.del 1 (.status (ev1 (some 0) (some "a"))) false],
+      [.del 0 .stop false, .del 1 .stop false, .radd (.addId 2 (some 0) true), .del 2 .start true, .del 2 .stop false] ] := by
+  decide
+/-- a raising sink: the dispatch ends there, the later sink is not started, no run is in progress afterwards (the
+rule added next is not started), and `stopTestRun` then reaches sinks that were never started -/
+example : (model { hasFallback := true, fbFlag := true
+                   ops := [.addId 1 none true, .start, .addId 2 (some 0) true, .stop]
+                   scripts := [{ sink := 0, kind := .start, entries := [[.raise]] }] }) =
+    { segments := [[], [.del 0 .start false, .exc "Fault"], [], [.del 0 .stop false, .del 1 .stop false, .del 2 .stop false]]
+      results := [.ok, .raised "Fault", .ok, .ok] } := by decide
+/-- the spec is sharp: a second start of the re-entrantly registered worker inside the same dispatch is rejected -/
+example : cHistory { hasFallback := true, fbFlag := true, ops := [.start]
+                     scripts := [{ sink := 0, kind := .start, entries := [[.add (.addId 1 none true)]] }] }
+    { segments := [[.del 0 .start false, .radd (.addId 1 none true), .del 1 .start true, .del 1 .start false]]
+      results := [.ok] } = false := by decide
 example : popAll [['a', 'b'], ['0']] { ev1 none none with route := pushAll [['0'], ['a', 'b']] (some ['r', '/', 's']) }
     = some { ev1 none none with route := some ['r', '/', 's'] } := by decide
-/-- the one string that does not come back: the empty route code (no segment) returns as `None` -/
 example : route (single ['0']) { ev1 none none with route := Deco.prefixRoute ['0'] (some []) }
     = some (0, ev1 none none) := by decide
 
